@@ -1,1 +1,1804 @@
-//! c02 — harnesses not written yet.
+//! C02 — dynamic borrows: many readers xor one writer per type; conflicts are errors.
+//! Code: mahf::state::registry::StateRegistry::{try_borrow,try_borrow_mut,borrow,borrow_mut,try_get_value,try_borrow_value,try_borrow_value_mut,set_value,get_mut,try_get_multiple_mut,get_multiple_mut}
+//! Code: mahf::state::registry::multi::MultiStateTuple::{distinct,try_get_mut} (tuple arities 2..4), mahf::State::holding, mahf::StateError variants
+//! Out: more than 4 simultaneously live guards; tuple arities 5..8 (same macro, not instantiated here); std's RefCell is real code
+//! Assume: guard scenarios are fixed scripts with symbolic values and symbolic release order; multi-borrow harnesses keep CBMC's memory-safety checks on (memsafe=1)
+use better_any::{Tid, TidAble};
+use derive_more::{Deref, DerefMut};
+use mahf::state::registry::StateRegistry;
+use mahf::{CustomState, State, StateError};
+
+use crate::problems::TagP;
+use crate::sym;
+
+#[derive(Tid, Deref, DerefMut, Default)]
+pub struct A(pub u8);
+impl CustomState<'_> for A {}
+#[derive(Tid, Deref, DerefMut, Default)]
+pub struct B(pub u8);
+impl CustomState<'_> for B {}
+#[derive(Tid, Deref, DerefMut, Default)]
+pub struct C(pub u8);
+impl CustomState<'_> for C {}
+#[derive(Tid, Deref, DerefMut, Default)]
+pub struct D(pub u8);
+impl CustomState<'_> for D {}
+
+fn reg_ab(a: u8, b: u8) -> StateRegistry<'static> {
+    let mut reg = StateRegistry::new();
+    reg.insert(A(a));
+    reg.insert(B(b));
+    reg
+}
+
+/// @h tier=quick bound="single scope {A,B}: two shared guards, exclusive refused, other type unaffected, symbolic release order" unwind=4 cost=2
+#[cfg_attr(kani, kani::proof)]
+#[cfg_attr(kani, kani::unwind(4))]
+pub fn h_c02_readers_block_writer() {
+    let (a, b, x) = (sym::u8(), sym::u8(), sym::u8());
+    let reg = reg_ab(a, b);
+    let r1 = reg.try_borrow::<A>();
+    let r2 = reg.try_borrow::<A>();
+    assert!(matches!(&r1, Ok(g) if g.0 == a) && matches!(&r2, Ok(g) if g.0 == a), "any number of shared guards is granted");
+    assert!(matches!(reg.try_borrow_mut::<A>(), Err(StateError::BorrowConflictMut(..))), "exclusive request while shared guards exist is refused with a borrow-conflict error");
+    assert!(matches!(reg.try_borrow_value_mut::<A>(), Err(StateError::BorrowConflictMut(..))), "value-level exclusive request is refused too");
+    assert!(reg.set_value::<A>(x).is_none(), "set_value does not write through a conflict");
+    assert!(reg.try_get_value::<A>().ok() == Some(a), "shared reads still work");
+    // a different type is not affected
+    match reg.try_borrow_mut::<B>() {
+        Ok(mut g) => g.0 = x,
+        Err(_) => assert!(false, "guards for different types never interfere"),
+    }
+    assert!(reg.try_get_value::<B>().ok() == Some(x), "what was written through an exclusive guard is what later readers see");
+    // release in a symbolic order: the writer is admitted only after BOTH are gone
+    if sym::bool() {
+        drop(r1);
+        assert!(reg.try_borrow_mut::<A>().is_err(), "one remaining shared guard still blocks the writer");
+        drop(r2);
+    } else {
+        drop(r2);
+        assert!(reg.try_borrow_mut::<A>().is_err(), "one remaining shared guard still blocks the writer");
+        drop(r1);
+    }
+    match reg.try_borrow_mut::<A>() {
+        Ok(mut g) => g.0 = x,
+        Err(_) => assert!(false, "dropping the guards makes the state available again"),
+    }
+    assert!(reg.try_get_value::<A>().ok() == Some(x), "written value is visible");
+    vcover!(true, "reached");
+    std::mem::forget(reg);
+}
+
+/// @h tier=quick bound="single scope {A,B}: one exclusive guard refuses shared and exclusive requests" unwind=4 cost=2
+#[cfg_attr(kani, kani::proof)]
+#[cfg_attr(kani, kani::unwind(4))]
+pub fn h_c02_writer_blocks_all() {
+    let (a, b, x) = (sym::u8(), sym::u8(), sym::u8());
+    let reg = reg_ab(a, b);
+    {
+        let w = reg.try_borrow_mut::<A>();
+        assert!(w.is_ok(), "exclusive guard on a free state is granted");
+        assert!(matches!(reg.try_borrow::<A>(), Err(StateError::BorrowConflictImm(..))), "shared request while an exclusive guard exists is refused");
+        assert!(matches!(reg.try_borrow_mut::<A>(), Err(StateError::BorrowConflictMut(..))), "second exclusive request is refused");
+        assert!(matches!(reg.try_get_value::<A>(), Err(StateError::BorrowConflictImm(..))), "value read is refused, not granted");
+        assert!(matches!(reg.try_borrow_value::<A>(), Err(StateError::BorrowConflictImm(..))), "value borrow is refused");
+        assert!(reg.try_borrow::<B>().is_ok() && reg.try_get_value::<B>().ok() == Some(b), "other type unaffected");
+        if let Ok(mut g) = w {
+            g.0 = x;
+        }
+    }
+    assert!(reg.try_get_value::<A>().ok() == Some(x), "after the guard is dropped every reader sees the written value");
+    assert!(reg.try_borrow_mut::<A>().is_ok(), "available again");
+    vcover!(true, "reached");
+    std::mem::forget(reg);
+}
+
+/// @h tier=quick bound="two scopes, A in both: guards on the inner A and on the outer A never interfere" unwind=5 cost=2
+#[cfg_attr(kani, kani::proof)]
+#[cfg_attr(kani, kani::unwind(5))]
+pub fn h_c02_scopes_do_not_interfere() {
+    let (a0, a1, x) = (sym::u8(), sym::u8(), sym::u8());
+    let mut reg = StateRegistry::new();
+    reg.insert(A(a0));
+    let mut reg = reg.into_child();
+    reg.insert(A(a1));
+    {
+        let inner = reg.try_borrow_mut::<A>();
+        assert!(matches!(&inner, Ok(g) if g.0 == a1), "the innermost scope's state is borrowed");
+        let parent = match reg.parent() {
+            Some(p) => p,
+            None => {
+                assert!(false, "parent exists");
+                return;
+            }
+        };
+        match parent.try_borrow_mut::<A>() {
+            Ok(mut g) => {
+                assert!(g.0 == a0, "the outer state of the same type");
+                g.0 = x;
+            }
+            Err(_) => assert!(false, "the same type in a different scope is not affected by the guard"),
+        }
+        assert!(reg.try_borrow::<A>().is_err(), "the inner one is still exclusively held");
+    }
+    assert!(reg.try_get_value::<A>().ok() == Some(a1), "inner value untouched");
+    let (p, _) = reg.into_parent();
+    match p {
+        Some(p) => {
+            assert!(p.try_get_value::<A>().ok() == Some(x), "outer value written through its own guard");
+            std::mem::forget(p);
+        }
+        None => assert!(false, "parent exists"),
+    }
+    vcover!(true, "reached");
+}
+
+/// The explicitly panicking accessors panic on a conflict (and only then).
+/// @h tier=quick bound="borrow_mut on a state with a live shared guard panics" unwind=4 cost=2
+#[cfg_attr(kani, kani::proof)]
+#[cfg_attr(kani, kani::unwind(4))]
+#[cfg_attr(kani, kani::should_panic)]
+pub fn h_c02_borrow_mut_conflict_panics() {
+    let reg = reg_ab(sym::u8(), sym::u8());
+    let _r = reg.borrow::<A>();
+    let _w = reg.borrow_mut::<A>();
+}
+/// @h tier=quick bound="the panicking accessors do not panic on free states" unwind=4 cost=2
+#[cfg_attr(kani, kani::proof)]
+#[cfg_attr(kani, kani::unwind(4))]
+pub fn h_c02_panicking_accessors_free() {
+    let (a, b) = (sym::u8(), sym::u8());
+    let reg = reg_ab(a, b);
+    {
+        let r = reg.borrow::<A>();
+        let mut w = reg.borrow_mut::<B>();
+        w.0 = r.0;
+    }
+    assert!(reg.get_value::<B>() == a, "borrow/borrow_mut/get_value on free states work");
+    {
+        let mut v = reg.borrow_value_mut::<A>();
+        *v = b;
+    }
+    assert!(*reg.borrow_value::<A>() == b, "value accessors work");
+    vcover!(true, "reached");
+    std::mem::forget(reg);
+}
+
+// ---- holding --------------------------------------------------------------------------------------------
+
+/// `holding::<T>` takes T out, runs the closure next to the rest of the state, and puts T back
+/// into the scope it came from — whether or not the closure fails.
+fn holding(t_in_parent: bool) {
+    let (a, b, x) = (sym::u8(), sym::u8(), sym::u8());
+    let fail = sym::bool();
+    let mut reg = StateRegistry::new();
+    reg.insert(B(b));
+    if t_in_parent {
+        reg.insert(A(a));
+    }
+    let mut reg = reg.into_child();
+    if !t_in_parent {
+        reg.insert(A(a));
+    }
+    let mut s: State<'static, TagP> = State::from(reg);
+    let r = s.holding::<A>(|t, rest| {
+        assert!(t.0 == a, "the closure gets the state that was taken out");
+        assert!(!rest.contains::<A>(), "while held, the state is not in the registry");
+        assert!(rest.try_get_value::<B>().ok() == Some(b), "the rest of the state is usable");
+        t.0 = x;
+        if fail {
+            Err(eyre::eyre!("closure fails"))
+        } else {
+            Ok(())
+        }
+    });
+    assert!(r.is_err() == fail, "holding returns the closure's result");
+    assert!(s.try_get_value::<A>().ok() == Some(x), "the state is put back (with the closure's modification) whether or not the closure failed");
+    assert!(s.contains_at_top::<A>() == !t_in_parent, "the state is put back into the scope it came from");
+    let reg: StateRegistry = s.into();
+    let (parent, top) = reg.into_parent();
+    assert!(top.contains_at_top::<A>() == !t_in_parent, "inner scope membership");
+    match parent {
+        Some(p) => {
+            assert!(p.contains_at_top::<A>() == t_in_parent, "outer scope membership");
+            assert!(p.try_get_value::<B>().ok() == Some(b), "other state untouched");
+            std::mem::forget(p);
+        }
+        None => assert!(false, "parent exists"),
+    }
+    vcover!(fail, "closure failed");
+    vcover!(!fail, "closure succeeded");
+    std::mem::forget(top);
+}
+/// @h tier=quick bound="T in the top scope of two; closure outcome symbolic" unwind=5 cost=4
+#[cfg_attr(kani, kani::proof)]
+#[cfg_attr(kani, kani::unwind(5))]
+pub fn h_c02_holding_top() {
+    holding(false)
+}
+/// @h tier=quick bound="T in the parent scope of two; closure outcome symbolic" unwind=5 cost=4
+#[cfg_attr(kani, kani::proof)]
+#[cfg_attr(kani, kani::unwind(5))]
+pub fn h_c02_holding_parent() {
+    holding(true)
+}
+/// @h tier=quick bound="holding a type that is absent is an error and changes nothing" unwind=5 cost=2
+#[cfg_attr(kani, kani::proof)]
+#[cfg_attr(kani, kani::unwind(5))]
+pub fn h_c02_holding_absent() {
+    let b = sym::u8();
+    let mut reg = StateRegistry::new();
+    reg.insert(B(b));
+    let mut s: State<'static, TagP> = State::from(reg);
+    let r = s.holding::<A>(|_t, _rest| {
+        assert!(false, "the closure does not run when the state is absent");
+        Ok(())
+    });
+    assert!(r.is_err(), "absent state is an error");
+    assert!(s.try_get_value::<B>().ok() == Some(b) && !s.contains::<A>(), "nothing changed");
+    vcover!(true, "reached");
+    std::mem::forget(s);
+}
+
+// ---- multi-borrow: one harness per tuple type ------------------------------------------------------------
+
+fn reg_abcd(v: [u8; 4]) -> StateRegistry<'static> {
+    let mut reg = StateRegistry::new();
+    reg.insert(A(v[0]));
+    reg.insert(B(v[1]));
+    reg.insert(C(v[2]));
+    reg.insert(D(v[3]));
+    reg
+}
+fn distinct_addrs(a: &[usize]) -> bool {
+    let mut i = 0;
+    while i < a.len() {
+        let mut j = 0;
+        while j < i {
+            if a[i] == a[j] {
+                return false;
+            }
+            j += 1;
+        }
+        i += 1;
+    }
+    true
+}
+
+/// @h tier=quick bound="tuple (A,C) with C absent: NotFound; (A,B) granted afterwards" unwind=5 memsafe=1 cost=2
+#[cfg_attr(kani, kani::proof)]
+#[cfg_attr(kani, kani::unwind(5))]
+pub fn h_c02_multi_missing() {
+    let (a, b) = (sym::u8(), sym::u8());
+    let mut reg = reg_ab(a, b);
+    assert!(matches!(reg.try_get_multiple_mut::<(A, C)>(), Err(StateError::NotFound(_))), "a missing type is reported as NotFound");
+    assert!(matches!(reg.try_get_multiple_mut::<(C, A)>(), Err(StateError::NotFound(_))), "a missing type is reported as NotFound (first position)");
+    assert!(reg.try_get_multiple_mut::<(A, B)>().is_ok(), "present distinct types are granted");
+    vcover!(true, "reached");
+    std::mem::forget(reg);
+}
+
+/// Scopes: every type of the tuple resolves to ITS OWN innermost scope.
+/// @h tier=quick bound="two scopes: A only in the parent, B in both (shadowed): (A,B) and (B,A)" unwind=6 memsafe=1 cost=3
+#[cfg_attr(kani, kani::proof)]
+#[cfg_attr(kani, kani::unwind(6))]
+pub fn h_c02_multi_scopes() {
+    let (a, b0, b1, x, y) = (sym::u8(), sym::u8(), sym::u8(), sym::u8(), sym::u8());
+    let mut reg = StateRegistry::new();
+    reg.insert(A(a));
+    reg.insert(B(b0));
+    let mut reg = reg.into_child();
+    reg.insert(B(b1));
+    match reg.try_get_multiple_mut::<(A, B)>() {
+        Ok((ra, rb)) => {
+            assert!(ra.0 == a && rb.0 == b1, "each type resolves to its own innermost scope");
+            ra.0 = x;
+            rb.0 = y;
+        }
+        Err(_) => assert!(false, "granted"),
+    }
+    match reg.try_get_multiple_mut::<(B, A)>() {
+        Ok((rb, ra)) => assert!(ra.0 == x && rb.0 == y, "order of the tuple does not matter"),
+        Err(_) => assert!(false, "granted"),
+    }
+    let (p, top) = reg.into_parent();
+    assert!(top.try_get_value::<B>().ok() == Some(y), "inner B written");
+    match p {
+        Some(p) => {
+            assert!(p.try_get_value::<B>().ok() == Some(b0) && p.try_get_value::<A>().ok() == Some(x), "shadowed outer B unchanged, outer A written");
+            std::mem::forget(p);
+        }
+        None => assert!(false, "parent exists"),
+    }
+    vcover!(true, "reached");
+    std::mem::forget(top);
+}
+
+// ==== generated harness list (tools/gen/gen_c02.py) ====
+// @h tier=quick bound="tuple type (A, A) over a registry holding A,B,C,D; symbolic values" unwind=5 memsafe=1 cost=2
+#[cfg_attr(kani, kani::proof)]
+#[cfg_attr(kani, kani::unwind(7))]
+pub fn h_c02_multi_aa() {
+    let init = [sym::u8(), sym::u8(), sym::u8(), sym::u8()];
+    let mut reg = reg_abcd(init);
+    assert!(matches!(reg.try_get_multiple_mut::<(A, A)>(), Err(StateError::MultipleBorrowConflict(_))), "a tuple in which a type repeats is refused");
+    assert!(reg.try_get_value::<A>().ok() == Some(init[0]) && reg.try_get_value::<C>().ok() == Some(init[2]), "nothing changed");
+    vcover!(true, "reached");
+    std::mem::forget(reg);
+}
+// @h tier=quick bound="tuple type (A, B) over a registry holding A,B,C,D; symbolic values" unwind=5 memsafe=1 cost=2
+#[cfg_attr(kani, kani::proof)]
+#[cfg_attr(kani, kani::unwind(7))]
+pub fn h_c02_multi_ab() {
+    let init = [sym::u8(), sym::u8(), sym::u8(), sym::u8()];
+    let mut reg = reg_abcd(init);
+    let v = [sym::u8(), sym::u8(), sym::u8(), sym::u8()];
+    match reg.try_get_multiple_mut::<(A, B)>() {
+        Ok((r0, r1)) => {
+            let addrs = [r0 as *mut _ as usize, r1 as *mut _ as usize];
+            assert!(distinct_addrs(&addrs), "distinct types yield references to distinct objects");
+            r0.0 = v[0];
+            r1.0 = v[1];
+        }
+        Err(_) => assert!(false, "a tuple of distinct, present types is granted"),
+    }
+    assert!(reg.try_get_value::<A>().ok() == Some(v[0]), "what was written through the references is read back");
+    assert!(reg.try_get_value::<B>().ok() == Some(v[1]), "what was written through the references is read back");
+    assert!(reg.try_get_value::<C>().ok() == Some(init[2]), "types outside the tuple are untouched");
+    assert!(reg.try_get_value::<D>().ok() == Some(init[3]), "types outside the tuple are untouched");
+    vcover!(true, "reached");
+    std::mem::forget(reg);
+}
+// @h tier=quick bound="tuple type (B, A) over a registry holding A,B,C,D; symbolic values" unwind=5 memsafe=1 cost=2
+#[cfg_attr(kani, kani::proof)]
+#[cfg_attr(kani, kani::unwind(7))]
+pub fn h_c02_multi_ba() {
+    let init = [sym::u8(), sym::u8(), sym::u8(), sym::u8()];
+    let mut reg = reg_abcd(init);
+    let v = [sym::u8(), sym::u8(), sym::u8(), sym::u8()];
+    match reg.try_get_multiple_mut::<(B, A)>() {
+        Ok((r0, r1)) => {
+            let addrs = [r0 as *mut _ as usize, r1 as *mut _ as usize];
+            assert!(distinct_addrs(&addrs), "distinct types yield references to distinct objects");
+            r0.0 = v[0];
+            r1.0 = v[1];
+        }
+        Err(_) => assert!(false, "a tuple of distinct, present types is granted"),
+    }
+    assert!(reg.try_get_value::<B>().ok() == Some(v[0]), "what was written through the references is read back");
+    assert!(reg.try_get_value::<A>().ok() == Some(v[1]), "what was written through the references is read back");
+    assert!(reg.try_get_value::<C>().ok() == Some(init[2]), "types outside the tuple are untouched");
+    assert!(reg.try_get_value::<D>().ok() == Some(init[3]), "types outside the tuple are untouched");
+    vcover!(true, "reached");
+    std::mem::forget(reg);
+}
+// @h tier=thorough bound="tuple type (A, C) over a registry holding A,B,C,D; symbolic values" unwind=5 memsafe=1 cost=2
+#[cfg_attr(kani, kani::proof)]
+#[cfg_attr(kani, kani::unwind(7))]
+pub fn h_c02_multi_ac() {
+    let init = [sym::u8(), sym::u8(), sym::u8(), sym::u8()];
+    let mut reg = reg_abcd(init);
+    let v = [sym::u8(), sym::u8(), sym::u8(), sym::u8()];
+    match reg.try_get_multiple_mut::<(A, C)>() {
+        Ok((r0, r1)) => {
+            let addrs = [r0 as *mut _ as usize, r1 as *mut _ as usize];
+            assert!(distinct_addrs(&addrs), "distinct types yield references to distinct objects");
+            r0.0 = v[0];
+            r1.0 = v[1];
+        }
+        Err(_) => assert!(false, "a tuple of distinct, present types is granted"),
+    }
+    assert!(reg.try_get_value::<A>().ok() == Some(v[0]), "what was written through the references is read back");
+    assert!(reg.try_get_value::<C>().ok() == Some(v[1]), "what was written through the references is read back");
+    assert!(reg.try_get_value::<B>().ok() == Some(init[1]), "types outside the tuple are untouched");
+    assert!(reg.try_get_value::<D>().ok() == Some(init[3]), "types outside the tuple are untouched");
+    vcover!(true, "reached");
+    std::mem::forget(reg);
+}
+// @h tier=thorough bound="tuple type (B, B) over a registry holding A,B,C,D; symbolic values" unwind=5 memsafe=1 cost=2
+#[cfg_attr(kani, kani::proof)]
+#[cfg_attr(kani, kani::unwind(7))]
+pub fn h_c02_multi_bb() {
+    let init = [sym::u8(), sym::u8(), sym::u8(), sym::u8()];
+    let mut reg = reg_abcd(init);
+    assert!(matches!(reg.try_get_multiple_mut::<(B, B)>(), Err(StateError::MultipleBorrowConflict(_))), "a tuple in which a type repeats is refused");
+    assert!(reg.try_get_value::<A>().ok() == Some(init[0]) && reg.try_get_value::<C>().ok() == Some(init[2]), "nothing changed");
+    vcover!(true, "reached");
+    std::mem::forget(reg);
+}
+// @h tier=thorough bound="tuple type (B, C) over a registry holding A,B,C,D; symbolic values" unwind=5 memsafe=1 cost=2
+#[cfg_attr(kani, kani::proof)]
+#[cfg_attr(kani, kani::unwind(7))]
+pub fn h_c02_multi_bc() {
+    let init = [sym::u8(), sym::u8(), sym::u8(), sym::u8()];
+    let mut reg = reg_abcd(init);
+    let v = [sym::u8(), sym::u8(), sym::u8(), sym::u8()];
+    match reg.try_get_multiple_mut::<(B, C)>() {
+        Ok((r0, r1)) => {
+            let addrs = [r0 as *mut _ as usize, r1 as *mut _ as usize];
+            assert!(distinct_addrs(&addrs), "distinct types yield references to distinct objects");
+            r0.0 = v[0];
+            r1.0 = v[1];
+        }
+        Err(_) => assert!(false, "a tuple of distinct, present types is granted"),
+    }
+    assert!(reg.try_get_value::<B>().ok() == Some(v[0]), "what was written through the references is read back");
+    assert!(reg.try_get_value::<C>().ok() == Some(v[1]), "what was written through the references is read back");
+    assert!(reg.try_get_value::<A>().ok() == Some(init[0]), "types outside the tuple are untouched");
+    assert!(reg.try_get_value::<D>().ok() == Some(init[3]), "types outside the tuple are untouched");
+    vcover!(true, "reached");
+    std::mem::forget(reg);
+}
+// @h tier=thorough bound="tuple type (C, A) over a registry holding A,B,C,D; symbolic values" unwind=5 memsafe=1 cost=2
+#[cfg_attr(kani, kani::proof)]
+#[cfg_attr(kani, kani::unwind(7))]
+pub fn h_c02_multi_ca() {
+    let init = [sym::u8(), sym::u8(), sym::u8(), sym::u8()];
+    let mut reg = reg_abcd(init);
+    let v = [sym::u8(), sym::u8(), sym::u8(), sym::u8()];
+    match reg.try_get_multiple_mut::<(C, A)>() {
+        Ok((r0, r1)) => {
+            let addrs = [r0 as *mut _ as usize, r1 as *mut _ as usize];
+            assert!(distinct_addrs(&addrs), "distinct types yield references to distinct objects");
+            r0.0 = v[0];
+            r1.0 = v[1];
+        }
+        Err(_) => assert!(false, "a tuple of distinct, present types is granted"),
+    }
+    assert!(reg.try_get_value::<C>().ok() == Some(v[0]), "what was written through the references is read back");
+    assert!(reg.try_get_value::<A>().ok() == Some(v[1]), "what was written through the references is read back");
+    assert!(reg.try_get_value::<B>().ok() == Some(init[1]), "types outside the tuple are untouched");
+    assert!(reg.try_get_value::<D>().ok() == Some(init[3]), "types outside the tuple are untouched");
+    vcover!(true, "reached");
+    std::mem::forget(reg);
+}
+// @h tier=thorough bound="tuple type (C, B) over a registry holding A,B,C,D; symbolic values" unwind=5 memsafe=1 cost=2
+#[cfg_attr(kani, kani::proof)]
+#[cfg_attr(kani, kani::unwind(7))]
+pub fn h_c02_multi_cb() {
+    let init = [sym::u8(), sym::u8(), sym::u8(), sym::u8()];
+    let mut reg = reg_abcd(init);
+    let v = [sym::u8(), sym::u8(), sym::u8(), sym::u8()];
+    match reg.try_get_multiple_mut::<(C, B)>() {
+        Ok((r0, r1)) => {
+            let addrs = [r0 as *mut _ as usize, r1 as *mut _ as usize];
+            assert!(distinct_addrs(&addrs), "distinct types yield references to distinct objects");
+            r0.0 = v[0];
+            r1.0 = v[1];
+        }
+        Err(_) => assert!(false, "a tuple of distinct, present types is granted"),
+    }
+    assert!(reg.try_get_value::<C>().ok() == Some(v[0]), "what was written through the references is read back");
+    assert!(reg.try_get_value::<B>().ok() == Some(v[1]), "what was written through the references is read back");
+    assert!(reg.try_get_value::<A>().ok() == Some(init[0]), "types outside the tuple are untouched");
+    assert!(reg.try_get_value::<D>().ok() == Some(init[3]), "types outside the tuple are untouched");
+    vcover!(true, "reached");
+    std::mem::forget(reg);
+}
+// @h tier=thorough bound="tuple type (C, C) over a registry holding A,B,C,D; symbolic values" unwind=5 memsafe=1 cost=2
+#[cfg_attr(kani, kani::proof)]
+#[cfg_attr(kani, kani::unwind(7))]
+pub fn h_c02_multi_cc() {
+    let init = [sym::u8(), sym::u8(), sym::u8(), sym::u8()];
+    let mut reg = reg_abcd(init);
+    assert!(matches!(reg.try_get_multiple_mut::<(C, C)>(), Err(StateError::MultipleBorrowConflict(_))), "a tuple in which a type repeats is refused");
+    assert!(reg.try_get_value::<A>().ok() == Some(init[0]) && reg.try_get_value::<C>().ok() == Some(init[2]), "nothing changed");
+    vcover!(true, "reached");
+    std::mem::forget(reg);
+}
+// @h tier=quick bound="tuple type (A, A, A) over a registry holding A,B,C,D; symbolic values" unwind=6 memsafe=1 cost=2
+#[cfg_attr(kani, kani::proof)]
+#[cfg_attr(kani, kani::unwind(7))]
+pub fn h_c02_multi_aaa() {
+    let init = [sym::u8(), sym::u8(), sym::u8(), sym::u8()];
+    let mut reg = reg_abcd(init);
+    assert!(matches!(reg.try_get_multiple_mut::<(A, A, A)>(), Err(StateError::MultipleBorrowConflict(_))), "a tuple in which a type repeats is refused");
+    assert!(reg.try_get_value::<A>().ok() == Some(init[0]) && reg.try_get_value::<C>().ok() == Some(init[2]), "nothing changed");
+    vcover!(true, "reached");
+    std::mem::forget(reg);
+}
+// @h tier=quick bound="tuple type (A, A, B) over a registry holding A,B,C,D; symbolic values" unwind=6 memsafe=1 cost=2
+#[cfg_attr(kani, kani::proof)]
+#[cfg_attr(kani, kani::unwind(7))]
+pub fn h_c02_multi_aab() {
+    let init = [sym::u8(), sym::u8(), sym::u8(), sym::u8()];
+    let mut reg = reg_abcd(init);
+    assert!(matches!(reg.try_get_multiple_mut::<(A, A, B)>(), Err(StateError::MultipleBorrowConflict(_))), "a tuple in which a type repeats is refused");
+    assert!(reg.try_get_value::<A>().ok() == Some(init[0]) && reg.try_get_value::<C>().ok() == Some(init[2]), "nothing changed");
+    vcover!(true, "reached");
+    std::mem::forget(reg);
+}
+// @h tier=quick bound="tuple type (A, B, A) over a registry holding A,B,C,D; symbolic values" unwind=6 memsafe=1 cost=2
+#[cfg_attr(kani, kani::proof)]
+#[cfg_attr(kani, kani::unwind(7))]
+pub fn h_c02_multi_aba() {
+    let init = [sym::u8(), sym::u8(), sym::u8(), sym::u8()];
+    let mut reg = reg_abcd(init);
+    assert!(matches!(reg.try_get_multiple_mut::<(A, B, A)>(), Err(StateError::MultipleBorrowConflict(_))), "a tuple in which a type repeats is refused");
+    assert!(reg.try_get_value::<A>().ok() == Some(init[0]) && reg.try_get_value::<C>().ok() == Some(init[2]), "nothing changed");
+    vcover!(true, "reached");
+    std::mem::forget(reg);
+}
+// @h tier=quick bound="tuple type (A, B, B) over a registry holding A,B,C,D; symbolic values" unwind=6 memsafe=1 cost=2
+#[cfg_attr(kani, kani::proof)]
+#[cfg_attr(kani, kani::unwind(7))]
+pub fn h_c02_multi_abb() {
+    let init = [sym::u8(), sym::u8(), sym::u8(), sym::u8()];
+    let mut reg = reg_abcd(init);
+    assert!(matches!(reg.try_get_multiple_mut::<(A, B, B)>(), Err(StateError::MultipleBorrowConflict(_))), "a tuple in which a type repeats is refused");
+    assert!(reg.try_get_value::<A>().ok() == Some(init[0]) && reg.try_get_value::<C>().ok() == Some(init[2]), "nothing changed");
+    vcover!(true, "reached");
+    std::mem::forget(reg);
+}
+// @h tier=quick bound="tuple type (A, B, C) over a registry holding A,B,C,D; symbolic values" unwind=6 memsafe=1 cost=2
+#[cfg_attr(kani, kani::proof)]
+#[cfg_attr(kani, kani::unwind(7))]
+pub fn h_c02_multi_abc() {
+    let init = [sym::u8(), sym::u8(), sym::u8(), sym::u8()];
+    let mut reg = reg_abcd(init);
+    let v = [sym::u8(), sym::u8(), sym::u8(), sym::u8()];
+    match reg.try_get_multiple_mut::<(A, B, C)>() {
+        Ok((r0, r1, r2)) => {
+            let addrs = [r0 as *mut _ as usize, r1 as *mut _ as usize, r2 as *mut _ as usize];
+            assert!(distinct_addrs(&addrs), "distinct types yield references to distinct objects");
+            r0.0 = v[0];
+            r1.0 = v[1];
+            r2.0 = v[2];
+        }
+        Err(_) => assert!(false, "a tuple of distinct, present types is granted"),
+    }
+    assert!(reg.try_get_value::<A>().ok() == Some(v[0]), "what was written through the references is read back");
+    assert!(reg.try_get_value::<B>().ok() == Some(v[1]), "what was written through the references is read back");
+    assert!(reg.try_get_value::<C>().ok() == Some(v[2]), "what was written through the references is read back");
+    assert!(reg.try_get_value::<D>().ok() == Some(init[3]), "types outside the tuple are untouched");
+    vcover!(true, "reached");
+    std::mem::forget(reg);
+}
+// @h tier=quick bound="tuple type (B, B, A) over a registry holding A,B,C,D; symbolic values" unwind=6 memsafe=1 cost=2
+#[cfg_attr(kani, kani::proof)]
+#[cfg_attr(kani, kani::unwind(7))]
+pub fn h_c02_multi_bba() {
+    let init = [sym::u8(), sym::u8(), sym::u8(), sym::u8()];
+    let mut reg = reg_abcd(init);
+    assert!(matches!(reg.try_get_multiple_mut::<(B, B, A)>(), Err(StateError::MultipleBorrowConflict(_))), "a tuple in which a type repeats is refused");
+    assert!(reg.try_get_value::<A>().ok() == Some(init[0]) && reg.try_get_value::<C>().ok() == Some(init[2]), "nothing changed");
+    vcover!(true, "reached");
+    std::mem::forget(reg);
+}
+// @h tier=quick bound="tuple type (B, C, A) over a registry holding A,B,C,D; symbolic values" unwind=6 memsafe=1 cost=2
+#[cfg_attr(kani, kani::proof)]
+#[cfg_attr(kani, kani::unwind(7))]
+pub fn h_c02_multi_bca() {
+    let init = [sym::u8(), sym::u8(), sym::u8(), sym::u8()];
+    let mut reg = reg_abcd(init);
+    let v = [sym::u8(), sym::u8(), sym::u8(), sym::u8()];
+    match reg.try_get_multiple_mut::<(B, C, A)>() {
+        Ok((r0, r1, r2)) => {
+            let addrs = [r0 as *mut _ as usize, r1 as *mut _ as usize, r2 as *mut _ as usize];
+            assert!(distinct_addrs(&addrs), "distinct types yield references to distinct objects");
+            r0.0 = v[0];
+            r1.0 = v[1];
+            r2.0 = v[2];
+        }
+        Err(_) => assert!(false, "a tuple of distinct, present types is granted"),
+    }
+    assert!(reg.try_get_value::<B>().ok() == Some(v[0]), "what was written through the references is read back");
+    assert!(reg.try_get_value::<C>().ok() == Some(v[1]), "what was written through the references is read back");
+    assert!(reg.try_get_value::<A>().ok() == Some(v[2]), "what was written through the references is read back");
+    assert!(reg.try_get_value::<D>().ok() == Some(init[3]), "types outside the tuple are untouched");
+    vcover!(true, "reached");
+    std::mem::forget(reg);
+}
+// @h tier=quick bound="tuple type (C, A, B) over a registry holding A,B,C,D; symbolic values" unwind=6 memsafe=1 cost=2
+#[cfg_attr(kani, kani::proof)]
+#[cfg_attr(kani, kani::unwind(7))]
+pub fn h_c02_multi_cab() {
+    let init = [sym::u8(), sym::u8(), sym::u8(), sym::u8()];
+    let mut reg = reg_abcd(init);
+    let v = [sym::u8(), sym::u8(), sym::u8(), sym::u8()];
+    match reg.try_get_multiple_mut::<(C, A, B)>() {
+        Ok((r0, r1, r2)) => {
+            let addrs = [r0 as *mut _ as usize, r1 as *mut _ as usize, r2 as *mut _ as usize];
+            assert!(distinct_addrs(&addrs), "distinct types yield references to distinct objects");
+            r0.0 = v[0];
+            r1.0 = v[1];
+            r2.0 = v[2];
+        }
+        Err(_) => assert!(false, "a tuple of distinct, present types is granted"),
+    }
+    assert!(reg.try_get_value::<C>().ok() == Some(v[0]), "what was written through the references is read back");
+    assert!(reg.try_get_value::<A>().ok() == Some(v[1]), "what was written through the references is read back");
+    assert!(reg.try_get_value::<B>().ok() == Some(v[2]), "what was written through the references is read back");
+    assert!(reg.try_get_value::<D>().ok() == Some(init[3]), "types outside the tuple are untouched");
+    vcover!(true, "reached");
+    std::mem::forget(reg);
+}
+// @h tier=quick bound="tuple type (C, B, C) over a registry holding A,B,C,D; symbolic values" unwind=6 memsafe=1 cost=2
+#[cfg_attr(kani, kani::proof)]
+#[cfg_attr(kani, kani::unwind(7))]
+pub fn h_c02_multi_cbc() {
+    let init = [sym::u8(), sym::u8(), sym::u8(), sym::u8()];
+    let mut reg = reg_abcd(init);
+    assert!(matches!(reg.try_get_multiple_mut::<(C, B, C)>(), Err(StateError::MultipleBorrowConflict(_))), "a tuple in which a type repeats is refused");
+    assert!(reg.try_get_value::<A>().ok() == Some(init[0]) && reg.try_get_value::<C>().ok() == Some(init[2]), "nothing changed");
+    vcover!(true, "reached");
+    std::mem::forget(reg);
+}
+// @h tier=thorough bound="tuple type (A, A, C) over a registry holding A,B,C,D; symbolic values" unwind=6 memsafe=1 cost=2
+#[cfg_attr(kani, kani::proof)]
+#[cfg_attr(kani, kani::unwind(7))]
+pub fn h_c02_multi_aac() {
+    let init = [sym::u8(), sym::u8(), sym::u8(), sym::u8()];
+    let mut reg = reg_abcd(init);
+    assert!(matches!(reg.try_get_multiple_mut::<(A, A, C)>(), Err(StateError::MultipleBorrowConflict(_))), "a tuple in which a type repeats is refused");
+    assert!(reg.try_get_value::<A>().ok() == Some(init[0]) && reg.try_get_value::<C>().ok() == Some(init[2]), "nothing changed");
+    vcover!(true, "reached");
+    std::mem::forget(reg);
+}
+// @h tier=thorough bound="tuple type (A, C, A) over a registry holding A,B,C,D; symbolic values" unwind=6 memsafe=1 cost=2
+#[cfg_attr(kani, kani::proof)]
+#[cfg_attr(kani, kani::unwind(7))]
+pub fn h_c02_multi_aca() {
+    let init = [sym::u8(), sym::u8(), sym::u8(), sym::u8()];
+    let mut reg = reg_abcd(init);
+    assert!(matches!(reg.try_get_multiple_mut::<(A, C, A)>(), Err(StateError::MultipleBorrowConflict(_))), "a tuple in which a type repeats is refused");
+    assert!(reg.try_get_value::<A>().ok() == Some(init[0]) && reg.try_get_value::<C>().ok() == Some(init[2]), "nothing changed");
+    vcover!(true, "reached");
+    std::mem::forget(reg);
+}
+// @h tier=thorough bound="tuple type (A, C, B) over a registry holding A,B,C,D; symbolic values" unwind=6 memsafe=1 cost=2
+#[cfg_attr(kani, kani::proof)]
+#[cfg_attr(kani, kani::unwind(7))]
+pub fn h_c02_multi_acb() {
+    let init = [sym::u8(), sym::u8(), sym::u8(), sym::u8()];
+    let mut reg = reg_abcd(init);
+    let v = [sym::u8(), sym::u8(), sym::u8(), sym::u8()];
+    match reg.try_get_multiple_mut::<(A, C, B)>() {
+        Ok((r0, r1, r2)) => {
+            let addrs = [r0 as *mut _ as usize, r1 as *mut _ as usize, r2 as *mut _ as usize];
+            assert!(distinct_addrs(&addrs), "distinct types yield references to distinct objects");
+            r0.0 = v[0];
+            r1.0 = v[1];
+            r2.0 = v[2];
+        }
+        Err(_) => assert!(false, "a tuple of distinct, present types is granted"),
+    }
+    assert!(reg.try_get_value::<A>().ok() == Some(v[0]), "what was written through the references is read back");
+    assert!(reg.try_get_value::<C>().ok() == Some(v[1]), "what was written through the references is read back");
+    assert!(reg.try_get_value::<B>().ok() == Some(v[2]), "what was written through the references is read back");
+    assert!(reg.try_get_value::<D>().ok() == Some(init[3]), "types outside the tuple are untouched");
+    vcover!(true, "reached");
+    std::mem::forget(reg);
+}
+// @h tier=thorough bound="tuple type (A, C, C) over a registry holding A,B,C,D; symbolic values" unwind=6 memsafe=1 cost=2
+#[cfg_attr(kani, kani::proof)]
+#[cfg_attr(kani, kani::unwind(7))]
+pub fn h_c02_multi_acc() {
+    let init = [sym::u8(), sym::u8(), sym::u8(), sym::u8()];
+    let mut reg = reg_abcd(init);
+    assert!(matches!(reg.try_get_multiple_mut::<(A, C, C)>(), Err(StateError::MultipleBorrowConflict(_))), "a tuple in which a type repeats is refused");
+    assert!(reg.try_get_value::<A>().ok() == Some(init[0]) && reg.try_get_value::<C>().ok() == Some(init[2]), "nothing changed");
+    vcover!(true, "reached");
+    std::mem::forget(reg);
+}
+// @h tier=thorough bound="tuple type (B, A, A) over a registry holding A,B,C,D; symbolic values" unwind=6 memsafe=1 cost=2
+#[cfg_attr(kani, kani::proof)]
+#[cfg_attr(kani, kani::unwind(7))]
+pub fn h_c02_multi_baa() {
+    let init = [sym::u8(), sym::u8(), sym::u8(), sym::u8()];
+    let mut reg = reg_abcd(init);
+    assert!(matches!(reg.try_get_multiple_mut::<(B, A, A)>(), Err(StateError::MultipleBorrowConflict(_))), "a tuple in which a type repeats is refused");
+    assert!(reg.try_get_value::<A>().ok() == Some(init[0]) && reg.try_get_value::<C>().ok() == Some(init[2]), "nothing changed");
+    vcover!(true, "reached");
+    std::mem::forget(reg);
+}
+// @h tier=thorough bound="tuple type (B, A, B) over a registry holding A,B,C,D; symbolic values" unwind=6 memsafe=1 cost=2
+#[cfg_attr(kani, kani::proof)]
+#[cfg_attr(kani, kani::unwind(7))]
+pub fn h_c02_multi_bab() {
+    let init = [sym::u8(), sym::u8(), sym::u8(), sym::u8()];
+    let mut reg = reg_abcd(init);
+    assert!(matches!(reg.try_get_multiple_mut::<(B, A, B)>(), Err(StateError::MultipleBorrowConflict(_))), "a tuple in which a type repeats is refused");
+    assert!(reg.try_get_value::<A>().ok() == Some(init[0]) && reg.try_get_value::<C>().ok() == Some(init[2]), "nothing changed");
+    vcover!(true, "reached");
+    std::mem::forget(reg);
+}
+// @h tier=thorough bound="tuple type (B, A, C) over a registry holding A,B,C,D; symbolic values" unwind=6 memsafe=1 cost=2
+#[cfg_attr(kani, kani::proof)]
+#[cfg_attr(kani, kani::unwind(7))]
+pub fn h_c02_multi_bac() {
+    let init = [sym::u8(), sym::u8(), sym::u8(), sym::u8()];
+    let mut reg = reg_abcd(init);
+    let v = [sym::u8(), sym::u8(), sym::u8(), sym::u8()];
+    match reg.try_get_multiple_mut::<(B, A, C)>() {
+        Ok((r0, r1, r2)) => {
+            let addrs = [r0 as *mut _ as usize, r1 as *mut _ as usize, r2 as *mut _ as usize];
+            assert!(distinct_addrs(&addrs), "distinct types yield references to distinct objects");
+            r0.0 = v[0];
+            r1.0 = v[1];
+            r2.0 = v[2];
+        }
+        Err(_) => assert!(false, "a tuple of distinct, present types is granted"),
+    }
+    assert!(reg.try_get_value::<B>().ok() == Some(v[0]), "what was written through the references is read back");
+    assert!(reg.try_get_value::<A>().ok() == Some(v[1]), "what was written through the references is read back");
+    assert!(reg.try_get_value::<C>().ok() == Some(v[2]), "what was written through the references is read back");
+    assert!(reg.try_get_value::<D>().ok() == Some(init[3]), "types outside the tuple are untouched");
+    vcover!(true, "reached");
+    std::mem::forget(reg);
+}
+// @h tier=thorough bound="tuple type (B, B, B) over a registry holding A,B,C,D; symbolic values" unwind=6 memsafe=1 cost=2
+#[cfg_attr(kani, kani::proof)]
+#[cfg_attr(kani, kani::unwind(7))]
+pub fn h_c02_multi_bbb() {
+    let init = [sym::u8(), sym::u8(), sym::u8(), sym::u8()];
+    let mut reg = reg_abcd(init);
+    assert!(matches!(reg.try_get_multiple_mut::<(B, B, B)>(), Err(StateError::MultipleBorrowConflict(_))), "a tuple in which a type repeats is refused");
+    assert!(reg.try_get_value::<A>().ok() == Some(init[0]) && reg.try_get_value::<C>().ok() == Some(init[2]), "nothing changed");
+    vcover!(true, "reached");
+    std::mem::forget(reg);
+}
+// @h tier=thorough bound="tuple type (B, B, C) over a registry holding A,B,C,D; symbolic values" unwind=6 memsafe=1 cost=2
+#[cfg_attr(kani, kani::proof)]
+#[cfg_attr(kani, kani::unwind(7))]
+pub fn h_c02_multi_bbc() {
+    let init = [sym::u8(), sym::u8(), sym::u8(), sym::u8()];
+    let mut reg = reg_abcd(init);
+    assert!(matches!(reg.try_get_multiple_mut::<(B, B, C)>(), Err(StateError::MultipleBorrowConflict(_))), "a tuple in which a type repeats is refused");
+    assert!(reg.try_get_value::<A>().ok() == Some(init[0]) && reg.try_get_value::<C>().ok() == Some(init[2]), "nothing changed");
+    vcover!(true, "reached");
+    std::mem::forget(reg);
+}
+// @h tier=thorough bound="tuple type (B, C, B) over a registry holding A,B,C,D; symbolic values" unwind=6 memsafe=1 cost=2
+#[cfg_attr(kani, kani::proof)]
+#[cfg_attr(kani, kani::unwind(7))]
+pub fn h_c02_multi_bcb() {
+    let init = [sym::u8(), sym::u8(), sym::u8(), sym::u8()];
+    let mut reg = reg_abcd(init);
+    assert!(matches!(reg.try_get_multiple_mut::<(B, C, B)>(), Err(StateError::MultipleBorrowConflict(_))), "a tuple in which a type repeats is refused");
+    assert!(reg.try_get_value::<A>().ok() == Some(init[0]) && reg.try_get_value::<C>().ok() == Some(init[2]), "nothing changed");
+    vcover!(true, "reached");
+    std::mem::forget(reg);
+}
+// @h tier=thorough bound="tuple type (B, C, C) over a registry holding A,B,C,D; symbolic values" unwind=6 memsafe=1 cost=2
+#[cfg_attr(kani, kani::proof)]
+#[cfg_attr(kani, kani::unwind(7))]
+pub fn h_c02_multi_bcc() {
+    let init = [sym::u8(), sym::u8(), sym::u8(), sym::u8()];
+    let mut reg = reg_abcd(init);
+    assert!(matches!(reg.try_get_multiple_mut::<(B, C, C)>(), Err(StateError::MultipleBorrowConflict(_))), "a tuple in which a type repeats is refused");
+    assert!(reg.try_get_value::<A>().ok() == Some(init[0]) && reg.try_get_value::<C>().ok() == Some(init[2]), "nothing changed");
+    vcover!(true, "reached");
+    std::mem::forget(reg);
+}
+// @h tier=thorough bound="tuple type (C, A, A) over a registry holding A,B,C,D; symbolic values" unwind=6 memsafe=1 cost=2
+#[cfg_attr(kani, kani::proof)]
+#[cfg_attr(kani, kani::unwind(7))]
+pub fn h_c02_multi_caa() {
+    let init = [sym::u8(), sym::u8(), sym::u8(), sym::u8()];
+    let mut reg = reg_abcd(init);
+    assert!(matches!(reg.try_get_multiple_mut::<(C, A, A)>(), Err(StateError::MultipleBorrowConflict(_))), "a tuple in which a type repeats is refused");
+    assert!(reg.try_get_value::<A>().ok() == Some(init[0]) && reg.try_get_value::<C>().ok() == Some(init[2]), "nothing changed");
+    vcover!(true, "reached");
+    std::mem::forget(reg);
+}
+// @h tier=thorough bound="tuple type (C, A, C) over a registry holding A,B,C,D; symbolic values" unwind=6 memsafe=1 cost=2
+#[cfg_attr(kani, kani::proof)]
+#[cfg_attr(kani, kani::unwind(7))]
+pub fn h_c02_multi_cac() {
+    let init = [sym::u8(), sym::u8(), sym::u8(), sym::u8()];
+    let mut reg = reg_abcd(init);
+    assert!(matches!(reg.try_get_multiple_mut::<(C, A, C)>(), Err(StateError::MultipleBorrowConflict(_))), "a tuple in which a type repeats is refused");
+    assert!(reg.try_get_value::<A>().ok() == Some(init[0]) && reg.try_get_value::<C>().ok() == Some(init[2]), "nothing changed");
+    vcover!(true, "reached");
+    std::mem::forget(reg);
+}
+// @h tier=thorough bound="tuple type (C, B, A) over a registry holding A,B,C,D; symbolic values" unwind=6 memsafe=1 cost=2
+#[cfg_attr(kani, kani::proof)]
+#[cfg_attr(kani, kani::unwind(7))]
+pub fn h_c02_multi_cba() {
+    let init = [sym::u8(), sym::u8(), sym::u8(), sym::u8()];
+    let mut reg = reg_abcd(init);
+    let v = [sym::u8(), sym::u8(), sym::u8(), sym::u8()];
+    match reg.try_get_multiple_mut::<(C, B, A)>() {
+        Ok((r0, r1, r2)) => {
+            let addrs = [r0 as *mut _ as usize, r1 as *mut _ as usize, r2 as *mut _ as usize];
+            assert!(distinct_addrs(&addrs), "distinct types yield references to distinct objects");
+            r0.0 = v[0];
+            r1.0 = v[1];
+            r2.0 = v[2];
+        }
+        Err(_) => assert!(false, "a tuple of distinct, present types is granted"),
+    }
+    assert!(reg.try_get_value::<C>().ok() == Some(v[0]), "what was written through the references is read back");
+    assert!(reg.try_get_value::<B>().ok() == Some(v[1]), "what was written through the references is read back");
+    assert!(reg.try_get_value::<A>().ok() == Some(v[2]), "what was written through the references is read back");
+    assert!(reg.try_get_value::<D>().ok() == Some(init[3]), "types outside the tuple are untouched");
+    vcover!(true, "reached");
+    std::mem::forget(reg);
+}
+// @h tier=thorough bound="tuple type (C, B, B) over a registry holding A,B,C,D; symbolic values" unwind=6 memsafe=1 cost=2
+#[cfg_attr(kani, kani::proof)]
+#[cfg_attr(kani, kani::unwind(7))]
+pub fn h_c02_multi_cbb() {
+    let init = [sym::u8(), sym::u8(), sym::u8(), sym::u8()];
+    let mut reg = reg_abcd(init);
+    assert!(matches!(reg.try_get_multiple_mut::<(C, B, B)>(), Err(StateError::MultipleBorrowConflict(_))), "a tuple in which a type repeats is refused");
+    assert!(reg.try_get_value::<A>().ok() == Some(init[0]) && reg.try_get_value::<C>().ok() == Some(init[2]), "nothing changed");
+    vcover!(true, "reached");
+    std::mem::forget(reg);
+}
+// @h tier=thorough bound="tuple type (C, C, A) over a registry holding A,B,C,D; symbolic values" unwind=6 memsafe=1 cost=2
+#[cfg_attr(kani, kani::proof)]
+#[cfg_attr(kani, kani::unwind(7))]
+pub fn h_c02_multi_cca() {
+    let init = [sym::u8(), sym::u8(), sym::u8(), sym::u8()];
+    let mut reg = reg_abcd(init);
+    assert!(matches!(reg.try_get_multiple_mut::<(C, C, A)>(), Err(StateError::MultipleBorrowConflict(_))), "a tuple in which a type repeats is refused");
+    assert!(reg.try_get_value::<A>().ok() == Some(init[0]) && reg.try_get_value::<C>().ok() == Some(init[2]), "nothing changed");
+    vcover!(true, "reached");
+    std::mem::forget(reg);
+}
+// @h tier=thorough bound="tuple type (C, C, B) over a registry holding A,B,C,D; symbolic values" unwind=6 memsafe=1 cost=2
+#[cfg_attr(kani, kani::proof)]
+#[cfg_attr(kani, kani::unwind(7))]
+pub fn h_c02_multi_ccb() {
+    let init = [sym::u8(), sym::u8(), sym::u8(), sym::u8()];
+    let mut reg = reg_abcd(init);
+    assert!(matches!(reg.try_get_multiple_mut::<(C, C, B)>(), Err(StateError::MultipleBorrowConflict(_))), "a tuple in which a type repeats is refused");
+    assert!(reg.try_get_value::<A>().ok() == Some(init[0]) && reg.try_get_value::<C>().ok() == Some(init[2]), "nothing changed");
+    vcover!(true, "reached");
+    std::mem::forget(reg);
+}
+// @h tier=thorough bound="tuple type (C, C, C) over a registry holding A,B,C,D; symbolic values" unwind=6 memsafe=1 cost=2
+#[cfg_attr(kani, kani::proof)]
+#[cfg_attr(kani, kani::unwind(7))]
+pub fn h_c02_multi_ccc() {
+    let init = [sym::u8(), sym::u8(), sym::u8(), sym::u8()];
+    let mut reg = reg_abcd(init);
+    assert!(matches!(reg.try_get_multiple_mut::<(C, C, C)>(), Err(StateError::MultipleBorrowConflict(_))), "a tuple in which a type repeats is refused");
+    assert!(reg.try_get_value::<A>().ok() == Some(init[0]) && reg.try_get_value::<C>().ok() == Some(init[2]), "nothing changed");
+    vcover!(true, "reached");
+    std::mem::forget(reg);
+}
+// @h tier=quick bound="tuple type (A, A, A, A) over a registry holding A,B,C,D; symbolic values" unwind=7 memsafe=1 cost=2
+#[cfg_attr(kani, kani::proof)]
+#[cfg_attr(kani, kani::unwind(7))]
+pub fn h_c02_multi_aaaa() {
+    let init = [sym::u8(), sym::u8(), sym::u8(), sym::u8()];
+    let mut reg = reg_abcd(init);
+    assert!(matches!(reg.try_get_multiple_mut::<(A, A, A, A)>(), Err(StateError::MultipleBorrowConflict(_))), "a tuple in which a type repeats is refused");
+    assert!(reg.try_get_value::<A>().ok() == Some(init[0]) && reg.try_get_value::<C>().ok() == Some(init[2]), "nothing changed");
+    vcover!(true, "reached");
+    std::mem::forget(reg);
+}
+// @h tier=quick bound="tuple type (A, A, A, B) over a registry holding A,B,C,D; symbolic values" unwind=7 memsafe=1 cost=2
+#[cfg_attr(kani, kani::proof)]
+#[cfg_attr(kani, kani::unwind(7))]
+pub fn h_c02_multi_aaab() {
+    let init = [sym::u8(), sym::u8(), sym::u8(), sym::u8()];
+    let mut reg = reg_abcd(init);
+    assert!(matches!(reg.try_get_multiple_mut::<(A, A, A, B)>(), Err(StateError::MultipleBorrowConflict(_))), "a tuple in which a type repeats is refused");
+    assert!(reg.try_get_value::<A>().ok() == Some(init[0]) && reg.try_get_value::<C>().ok() == Some(init[2]), "nothing changed");
+    vcover!(true, "reached");
+    std::mem::forget(reg);
+}
+// @h tier=quick bound="tuple type (A, A, B, A) over a registry holding A,B,C,D; symbolic values" unwind=7 memsafe=1 cost=2
+#[cfg_attr(kani, kani::proof)]
+#[cfg_attr(kani, kani::unwind(7))]
+pub fn h_c02_multi_aaba() {
+    let init = [sym::u8(), sym::u8(), sym::u8(), sym::u8()];
+    let mut reg = reg_abcd(init);
+    assert!(matches!(reg.try_get_multiple_mut::<(A, A, B, A)>(), Err(StateError::MultipleBorrowConflict(_))), "a tuple in which a type repeats is refused");
+    assert!(reg.try_get_value::<A>().ok() == Some(init[0]) && reg.try_get_value::<C>().ok() == Some(init[2]), "nothing changed");
+    vcover!(true, "reached");
+    std::mem::forget(reg);
+}
+// @h tier=quick bound="tuple type (A, A, B, B) over a registry holding A,B,C,D; symbolic values" unwind=7 memsafe=1 cost=2
+#[cfg_attr(kani, kani::proof)]
+#[cfg_attr(kani, kani::unwind(7))]
+pub fn h_c02_multi_aabb() {
+    let init = [sym::u8(), sym::u8(), sym::u8(), sym::u8()];
+    let mut reg = reg_abcd(init);
+    assert!(matches!(reg.try_get_multiple_mut::<(A, A, B, B)>(), Err(StateError::MultipleBorrowConflict(_))), "a tuple in which a type repeats is refused");
+    assert!(reg.try_get_value::<A>().ok() == Some(init[0]) && reg.try_get_value::<C>().ok() == Some(init[2]), "nothing changed");
+    vcover!(true, "reached");
+    std::mem::forget(reg);
+}
+// @h tier=quick bound="tuple type (A, A, B, C) over a registry holding A,B,C,D; symbolic values" unwind=7 memsafe=1 cost=2
+#[cfg_attr(kani, kani::proof)]
+#[cfg_attr(kani, kani::unwind(7))]
+pub fn h_c02_multi_aabc() {
+    let init = [sym::u8(), sym::u8(), sym::u8(), sym::u8()];
+    let mut reg = reg_abcd(init);
+    assert!(matches!(reg.try_get_multiple_mut::<(A, A, B, C)>(), Err(StateError::MultipleBorrowConflict(_))), "a tuple in which a type repeats is refused");
+    assert!(reg.try_get_value::<A>().ok() == Some(init[0]) && reg.try_get_value::<C>().ok() == Some(init[2]), "nothing changed");
+    vcover!(true, "reached");
+    std::mem::forget(reg);
+}
+// @h tier=quick bound="tuple type (A, B, A, A) over a registry holding A,B,C,D; symbolic values" unwind=7 memsafe=1 cost=2
+#[cfg_attr(kani, kani::proof)]
+#[cfg_attr(kani, kani::unwind(7))]
+pub fn h_c02_multi_abaa() {
+    let init = [sym::u8(), sym::u8(), sym::u8(), sym::u8()];
+    let mut reg = reg_abcd(init);
+    assert!(matches!(reg.try_get_multiple_mut::<(A, B, A, A)>(), Err(StateError::MultipleBorrowConflict(_))), "a tuple in which a type repeats is refused");
+    assert!(reg.try_get_value::<A>().ok() == Some(init[0]) && reg.try_get_value::<C>().ok() == Some(init[2]), "nothing changed");
+    vcover!(true, "reached");
+    std::mem::forget(reg);
+}
+// @h tier=quick bound="tuple type (A, B, A, B) over a registry holding A,B,C,D; symbolic values" unwind=7 memsafe=1 cost=2
+#[cfg_attr(kani, kani::proof)]
+#[cfg_attr(kani, kani::unwind(7))]
+pub fn h_c02_multi_abab() {
+    let init = [sym::u8(), sym::u8(), sym::u8(), sym::u8()];
+    let mut reg = reg_abcd(init);
+    assert!(matches!(reg.try_get_multiple_mut::<(A, B, A, B)>(), Err(StateError::MultipleBorrowConflict(_))), "a tuple in which a type repeats is refused");
+    assert!(reg.try_get_value::<A>().ok() == Some(init[0]) && reg.try_get_value::<C>().ok() == Some(init[2]), "nothing changed");
+    vcover!(true, "reached");
+    std::mem::forget(reg);
+}
+// @h tier=quick bound="tuple type (A, B, A, C) over a registry holding A,B,C,D; symbolic values" unwind=7 memsafe=1 cost=2
+#[cfg_attr(kani, kani::proof)]
+#[cfg_attr(kani, kani::unwind(7))]
+pub fn h_c02_multi_abac() {
+    let init = [sym::u8(), sym::u8(), sym::u8(), sym::u8()];
+    let mut reg = reg_abcd(init);
+    assert!(matches!(reg.try_get_multiple_mut::<(A, B, A, C)>(), Err(StateError::MultipleBorrowConflict(_))), "a tuple in which a type repeats is refused");
+    assert!(reg.try_get_value::<A>().ok() == Some(init[0]) && reg.try_get_value::<C>().ok() == Some(init[2]), "nothing changed");
+    vcover!(true, "reached");
+    std::mem::forget(reg);
+}
+// @h tier=quick bound="tuple type (A, B, B, A) over a registry holding A,B,C,D; symbolic values" unwind=7 memsafe=1 cost=2
+#[cfg_attr(kani, kani::proof)]
+#[cfg_attr(kani, kani::unwind(7))]
+pub fn h_c02_multi_abba() {
+    let init = [sym::u8(), sym::u8(), sym::u8(), sym::u8()];
+    let mut reg = reg_abcd(init);
+    assert!(matches!(reg.try_get_multiple_mut::<(A, B, B, A)>(), Err(StateError::MultipleBorrowConflict(_))), "a tuple in which a type repeats is refused");
+    assert!(reg.try_get_value::<A>().ok() == Some(init[0]) && reg.try_get_value::<C>().ok() == Some(init[2]), "nothing changed");
+    vcover!(true, "reached");
+    std::mem::forget(reg);
+}
+// @h tier=quick bound="tuple type (A, B, B, B) over a registry holding A,B,C,D; symbolic values" unwind=7 memsafe=1 cost=2
+#[cfg_attr(kani, kani::proof)]
+#[cfg_attr(kani, kani::unwind(7))]
+pub fn h_c02_multi_abbb() {
+    let init = [sym::u8(), sym::u8(), sym::u8(), sym::u8()];
+    let mut reg = reg_abcd(init);
+    assert!(matches!(reg.try_get_multiple_mut::<(A, B, B, B)>(), Err(StateError::MultipleBorrowConflict(_))), "a tuple in which a type repeats is refused");
+    assert!(reg.try_get_value::<A>().ok() == Some(init[0]) && reg.try_get_value::<C>().ok() == Some(init[2]), "nothing changed");
+    vcover!(true, "reached");
+    std::mem::forget(reg);
+}
+// @h tier=quick bound="tuple type (A, B, B, C) over a registry holding A,B,C,D; symbolic values" unwind=7 memsafe=1 cost=2
+#[cfg_attr(kani, kani::proof)]
+#[cfg_attr(kani, kani::unwind(7))]
+pub fn h_c02_multi_abbc() {
+    let init = [sym::u8(), sym::u8(), sym::u8(), sym::u8()];
+    let mut reg = reg_abcd(init);
+    assert!(matches!(reg.try_get_multiple_mut::<(A, B, B, C)>(), Err(StateError::MultipleBorrowConflict(_))), "a tuple in which a type repeats is refused");
+    assert!(reg.try_get_value::<A>().ok() == Some(init[0]) && reg.try_get_value::<C>().ok() == Some(init[2]), "nothing changed");
+    vcover!(true, "reached");
+    std::mem::forget(reg);
+}
+// @h tier=quick bound="tuple type (A, B, C, A) over a registry holding A,B,C,D; symbolic values" unwind=7 memsafe=1 cost=2
+#[cfg_attr(kani, kani::proof)]
+#[cfg_attr(kani, kani::unwind(7))]
+pub fn h_c02_multi_abca() {
+    let init = [sym::u8(), sym::u8(), sym::u8(), sym::u8()];
+    let mut reg = reg_abcd(init);
+    assert!(matches!(reg.try_get_multiple_mut::<(A, B, C, A)>(), Err(StateError::MultipleBorrowConflict(_))), "a tuple in which a type repeats is refused");
+    assert!(reg.try_get_value::<A>().ok() == Some(init[0]) && reg.try_get_value::<C>().ok() == Some(init[2]), "nothing changed");
+    vcover!(true, "reached");
+    std::mem::forget(reg);
+}
+// @h tier=quick bound="tuple type (A, B, C, B) over a registry holding A,B,C,D; symbolic values" unwind=7 memsafe=1 cost=2
+#[cfg_attr(kani, kani::proof)]
+#[cfg_attr(kani, kani::unwind(7))]
+pub fn h_c02_multi_abcb() {
+    let init = [sym::u8(), sym::u8(), sym::u8(), sym::u8()];
+    let mut reg = reg_abcd(init);
+    assert!(matches!(reg.try_get_multiple_mut::<(A, B, C, B)>(), Err(StateError::MultipleBorrowConflict(_))), "a tuple in which a type repeats is refused");
+    assert!(reg.try_get_value::<A>().ok() == Some(init[0]) && reg.try_get_value::<C>().ok() == Some(init[2]), "nothing changed");
+    vcover!(true, "reached");
+    std::mem::forget(reg);
+}
+// @h tier=quick bound="tuple type (A, B, C, C) over a registry holding A,B,C,D; symbolic values" unwind=7 memsafe=1 cost=2
+#[cfg_attr(kani, kani::proof)]
+#[cfg_attr(kani, kani::unwind(7))]
+pub fn h_c02_multi_abcc() {
+    let init = [sym::u8(), sym::u8(), sym::u8(), sym::u8()];
+    let mut reg = reg_abcd(init);
+    assert!(matches!(reg.try_get_multiple_mut::<(A, B, C, C)>(), Err(StateError::MultipleBorrowConflict(_))), "a tuple in which a type repeats is refused");
+    assert!(reg.try_get_value::<A>().ok() == Some(init[0]) && reg.try_get_value::<C>().ok() == Some(init[2]), "nothing changed");
+    vcover!(true, "reached");
+    std::mem::forget(reg);
+}
+// @h tier=quick bound="tuple type (A, B, C, D) over a registry holding A,B,C,D; symbolic values" unwind=7 memsafe=1 cost=2
+#[cfg_attr(kani, kani::proof)]
+#[cfg_attr(kani, kani::unwind(7))]
+pub fn h_c02_multi_abcd() {
+    let init = [sym::u8(), sym::u8(), sym::u8(), sym::u8()];
+    let mut reg = reg_abcd(init);
+    let v = [sym::u8(), sym::u8(), sym::u8(), sym::u8()];
+    match reg.try_get_multiple_mut::<(A, B, C, D)>() {
+        Ok((r0, r1, r2, r3)) => {
+            let addrs = [r0 as *mut _ as usize, r1 as *mut _ as usize, r2 as *mut _ as usize, r3 as *mut _ as usize];
+            assert!(distinct_addrs(&addrs), "distinct types yield references to distinct objects");
+            r0.0 = v[0];
+            r1.0 = v[1];
+            r2.0 = v[2];
+            r3.0 = v[3];
+        }
+        Err(_) => assert!(false, "a tuple of distinct, present types is granted"),
+    }
+    assert!(reg.try_get_value::<A>().ok() == Some(v[0]), "what was written through the references is read back");
+    assert!(reg.try_get_value::<B>().ok() == Some(v[1]), "what was written through the references is read back");
+    assert!(reg.try_get_value::<C>().ok() == Some(v[2]), "what was written through the references is read back");
+    assert!(reg.try_get_value::<D>().ok() == Some(v[3]), "what was written through the references is read back");
+    vcover!(true, "reached");
+    std::mem::forget(reg);
+}
+// @h tier=quick bound="tuple type (D, C, B, A) over a registry holding A,B,C,D; symbolic values" unwind=7 memsafe=1 cost=2
+#[cfg_attr(kani, kani::proof)]
+#[cfg_attr(kani, kani::unwind(7))]
+pub fn h_c02_multi_dcba() {
+    let init = [sym::u8(), sym::u8(), sym::u8(), sym::u8()];
+    let mut reg = reg_abcd(init);
+    let v = [sym::u8(), sym::u8(), sym::u8(), sym::u8()];
+    match reg.try_get_multiple_mut::<(D, C, B, A)>() {
+        Ok((r0, r1, r2, r3)) => {
+            let addrs = [r0 as *mut _ as usize, r1 as *mut _ as usize, r2 as *mut _ as usize, r3 as *mut _ as usize];
+            assert!(distinct_addrs(&addrs), "distinct types yield references to distinct objects");
+            r0.0 = v[0];
+            r1.0 = v[1];
+            r2.0 = v[2];
+            r3.0 = v[3];
+        }
+        Err(_) => assert!(false, "a tuple of distinct, present types is granted"),
+    }
+    assert!(reg.try_get_value::<D>().ok() == Some(v[0]), "what was written through the references is read back");
+    assert!(reg.try_get_value::<C>().ok() == Some(v[1]), "what was written through the references is read back");
+    assert!(reg.try_get_value::<B>().ok() == Some(v[2]), "what was written through the references is read back");
+    assert!(reg.try_get_value::<A>().ok() == Some(v[3]), "what was written through the references is read back");
+    vcover!(true, "reached");
+    std::mem::forget(reg);
+}
+// @h tier=thorough bound="tuple type (A, A, A, C) over a registry holding A,B,C,D; symbolic values" unwind=7 memsafe=1 cost=2
+#[cfg_attr(kani, kani::proof)]
+#[cfg_attr(kani, kani::unwind(7))]
+pub fn h_c02_multi_aaac() {
+    let init = [sym::u8(), sym::u8(), sym::u8(), sym::u8()];
+    let mut reg = reg_abcd(init);
+    assert!(matches!(reg.try_get_multiple_mut::<(A, A, A, C)>(), Err(StateError::MultipleBorrowConflict(_))), "a tuple in which a type repeats is refused");
+    assert!(reg.try_get_value::<A>().ok() == Some(init[0]) && reg.try_get_value::<C>().ok() == Some(init[2]), "nothing changed");
+    vcover!(true, "reached");
+    std::mem::forget(reg);
+}
+// @h tier=thorough bound="tuple type (A, A, C, A) over a registry holding A,B,C,D; symbolic values" unwind=7 memsafe=1 cost=2
+#[cfg_attr(kani, kani::proof)]
+#[cfg_attr(kani, kani::unwind(7))]
+pub fn h_c02_multi_aaca() {
+    let init = [sym::u8(), sym::u8(), sym::u8(), sym::u8()];
+    let mut reg = reg_abcd(init);
+    assert!(matches!(reg.try_get_multiple_mut::<(A, A, C, A)>(), Err(StateError::MultipleBorrowConflict(_))), "a tuple in which a type repeats is refused");
+    assert!(reg.try_get_value::<A>().ok() == Some(init[0]) && reg.try_get_value::<C>().ok() == Some(init[2]), "nothing changed");
+    vcover!(true, "reached");
+    std::mem::forget(reg);
+}
+// @h tier=thorough bound="tuple type (A, A, C, B) over a registry holding A,B,C,D; symbolic values" unwind=7 memsafe=1 cost=2
+#[cfg_attr(kani, kani::proof)]
+#[cfg_attr(kani, kani::unwind(7))]
+pub fn h_c02_multi_aacb() {
+    let init = [sym::u8(), sym::u8(), sym::u8(), sym::u8()];
+    let mut reg = reg_abcd(init);
+    assert!(matches!(reg.try_get_multiple_mut::<(A, A, C, B)>(), Err(StateError::MultipleBorrowConflict(_))), "a tuple in which a type repeats is refused");
+    assert!(reg.try_get_value::<A>().ok() == Some(init[0]) && reg.try_get_value::<C>().ok() == Some(init[2]), "nothing changed");
+    vcover!(true, "reached");
+    std::mem::forget(reg);
+}
+// @h tier=thorough bound="tuple type (A, A, C, C) over a registry holding A,B,C,D; symbolic values" unwind=7 memsafe=1 cost=2
+#[cfg_attr(kani, kani::proof)]
+#[cfg_attr(kani, kani::unwind(7))]
+pub fn h_c02_multi_aacc() {
+    let init = [sym::u8(), sym::u8(), sym::u8(), sym::u8()];
+    let mut reg = reg_abcd(init);
+    assert!(matches!(reg.try_get_multiple_mut::<(A, A, C, C)>(), Err(StateError::MultipleBorrowConflict(_))), "a tuple in which a type repeats is refused");
+    assert!(reg.try_get_value::<A>().ok() == Some(init[0]) && reg.try_get_value::<C>().ok() == Some(init[2]), "nothing changed");
+    vcover!(true, "reached");
+    std::mem::forget(reg);
+}
+// @h tier=thorough bound="tuple type (A, C, A, A) over a registry holding A,B,C,D; symbolic values" unwind=7 memsafe=1 cost=2
+#[cfg_attr(kani, kani::proof)]
+#[cfg_attr(kani, kani::unwind(7))]
+pub fn h_c02_multi_acaa() {
+    let init = [sym::u8(), sym::u8(), sym::u8(), sym::u8()];
+    let mut reg = reg_abcd(init);
+    assert!(matches!(reg.try_get_multiple_mut::<(A, C, A, A)>(), Err(StateError::MultipleBorrowConflict(_))), "a tuple in which a type repeats is refused");
+    assert!(reg.try_get_value::<A>().ok() == Some(init[0]) && reg.try_get_value::<C>().ok() == Some(init[2]), "nothing changed");
+    vcover!(true, "reached");
+    std::mem::forget(reg);
+}
+// @h tier=thorough bound="tuple type (A, C, A, B) over a registry holding A,B,C,D; symbolic values" unwind=7 memsafe=1 cost=2
+#[cfg_attr(kani, kani::proof)]
+#[cfg_attr(kani, kani::unwind(7))]
+pub fn h_c02_multi_acab() {
+    let init = [sym::u8(), sym::u8(), sym::u8(), sym::u8()];
+    let mut reg = reg_abcd(init);
+    assert!(matches!(reg.try_get_multiple_mut::<(A, C, A, B)>(), Err(StateError::MultipleBorrowConflict(_))), "a tuple in which a type repeats is refused");
+    assert!(reg.try_get_value::<A>().ok() == Some(init[0]) && reg.try_get_value::<C>().ok() == Some(init[2]), "nothing changed");
+    vcover!(true, "reached");
+    std::mem::forget(reg);
+}
+// @h tier=thorough bound="tuple type (A, C, A, C) over a registry holding A,B,C,D; symbolic values" unwind=7 memsafe=1 cost=2
+#[cfg_attr(kani, kani::proof)]
+#[cfg_attr(kani, kani::unwind(7))]
+pub fn h_c02_multi_acac() {
+    let init = [sym::u8(), sym::u8(), sym::u8(), sym::u8()];
+    let mut reg = reg_abcd(init);
+    assert!(matches!(reg.try_get_multiple_mut::<(A, C, A, C)>(), Err(StateError::MultipleBorrowConflict(_))), "a tuple in which a type repeats is refused");
+    assert!(reg.try_get_value::<A>().ok() == Some(init[0]) && reg.try_get_value::<C>().ok() == Some(init[2]), "nothing changed");
+    vcover!(true, "reached");
+    std::mem::forget(reg);
+}
+// @h tier=thorough bound="tuple type (A, C, B, A) over a registry holding A,B,C,D; symbolic values" unwind=7 memsafe=1 cost=2
+#[cfg_attr(kani, kani::proof)]
+#[cfg_attr(kani, kani::unwind(7))]
+pub fn h_c02_multi_acba() {
+    let init = [sym::u8(), sym::u8(), sym::u8(), sym::u8()];
+    let mut reg = reg_abcd(init);
+    assert!(matches!(reg.try_get_multiple_mut::<(A, C, B, A)>(), Err(StateError::MultipleBorrowConflict(_))), "a tuple in which a type repeats is refused");
+    assert!(reg.try_get_value::<A>().ok() == Some(init[0]) && reg.try_get_value::<C>().ok() == Some(init[2]), "nothing changed");
+    vcover!(true, "reached");
+    std::mem::forget(reg);
+}
+// @h tier=thorough bound="tuple type (A, C, B, B) over a registry holding A,B,C,D; symbolic values" unwind=7 memsafe=1 cost=2
+#[cfg_attr(kani, kani::proof)]
+#[cfg_attr(kani, kani::unwind(7))]
+pub fn h_c02_multi_acbb() {
+    let init = [sym::u8(), sym::u8(), sym::u8(), sym::u8()];
+    let mut reg = reg_abcd(init);
+    assert!(matches!(reg.try_get_multiple_mut::<(A, C, B, B)>(), Err(StateError::MultipleBorrowConflict(_))), "a tuple in which a type repeats is refused");
+    assert!(reg.try_get_value::<A>().ok() == Some(init[0]) && reg.try_get_value::<C>().ok() == Some(init[2]), "nothing changed");
+    vcover!(true, "reached");
+    std::mem::forget(reg);
+}
+// @h tier=thorough bound="tuple type (A, C, B, C) over a registry holding A,B,C,D; symbolic values" unwind=7 memsafe=1 cost=2
+#[cfg_attr(kani, kani::proof)]
+#[cfg_attr(kani, kani::unwind(7))]
+pub fn h_c02_multi_acbc() {
+    let init = [sym::u8(), sym::u8(), sym::u8(), sym::u8()];
+    let mut reg = reg_abcd(init);
+    assert!(matches!(reg.try_get_multiple_mut::<(A, C, B, C)>(), Err(StateError::MultipleBorrowConflict(_))), "a tuple in which a type repeats is refused");
+    assert!(reg.try_get_value::<A>().ok() == Some(init[0]) && reg.try_get_value::<C>().ok() == Some(init[2]), "nothing changed");
+    vcover!(true, "reached");
+    std::mem::forget(reg);
+}
+// @h tier=thorough bound="tuple type (A, C, C, A) over a registry holding A,B,C,D; symbolic values" unwind=7 memsafe=1 cost=2
+#[cfg_attr(kani, kani::proof)]
+#[cfg_attr(kani, kani::unwind(7))]
+pub fn h_c02_multi_acca() {
+    let init = [sym::u8(), sym::u8(), sym::u8(), sym::u8()];
+    let mut reg = reg_abcd(init);
+    assert!(matches!(reg.try_get_multiple_mut::<(A, C, C, A)>(), Err(StateError::MultipleBorrowConflict(_))), "a tuple in which a type repeats is refused");
+    assert!(reg.try_get_value::<A>().ok() == Some(init[0]) && reg.try_get_value::<C>().ok() == Some(init[2]), "nothing changed");
+    vcover!(true, "reached");
+    std::mem::forget(reg);
+}
+// @h tier=thorough bound="tuple type (A, C, C, B) over a registry holding A,B,C,D; symbolic values" unwind=7 memsafe=1 cost=2
+#[cfg_attr(kani, kani::proof)]
+#[cfg_attr(kani, kani::unwind(7))]
+pub fn h_c02_multi_accb() {
+    let init = [sym::u8(), sym::u8(), sym::u8(), sym::u8()];
+    let mut reg = reg_abcd(init);
+    assert!(matches!(reg.try_get_multiple_mut::<(A, C, C, B)>(), Err(StateError::MultipleBorrowConflict(_))), "a tuple in which a type repeats is refused");
+    assert!(reg.try_get_value::<A>().ok() == Some(init[0]) && reg.try_get_value::<C>().ok() == Some(init[2]), "nothing changed");
+    vcover!(true, "reached");
+    std::mem::forget(reg);
+}
+// @h tier=thorough bound="tuple type (A, C, C, C) over a registry holding A,B,C,D; symbolic values" unwind=7 memsafe=1 cost=2
+#[cfg_attr(kani, kani::proof)]
+#[cfg_attr(kani, kani::unwind(7))]
+pub fn h_c02_multi_accc() {
+    let init = [sym::u8(), sym::u8(), sym::u8(), sym::u8()];
+    let mut reg = reg_abcd(init);
+    assert!(matches!(reg.try_get_multiple_mut::<(A, C, C, C)>(), Err(StateError::MultipleBorrowConflict(_))), "a tuple in which a type repeats is refused");
+    assert!(reg.try_get_value::<A>().ok() == Some(init[0]) && reg.try_get_value::<C>().ok() == Some(init[2]), "nothing changed");
+    vcover!(true, "reached");
+    std::mem::forget(reg);
+}
+// @h tier=thorough bound="tuple type (B, A, A, A) over a registry holding A,B,C,D; symbolic values" unwind=7 memsafe=1 cost=2
+#[cfg_attr(kani, kani::proof)]
+#[cfg_attr(kani, kani::unwind(7))]
+pub fn h_c02_multi_baaa() {
+    let init = [sym::u8(), sym::u8(), sym::u8(), sym::u8()];
+    let mut reg = reg_abcd(init);
+    assert!(matches!(reg.try_get_multiple_mut::<(B, A, A, A)>(), Err(StateError::MultipleBorrowConflict(_))), "a tuple in which a type repeats is refused");
+    assert!(reg.try_get_value::<A>().ok() == Some(init[0]) && reg.try_get_value::<C>().ok() == Some(init[2]), "nothing changed");
+    vcover!(true, "reached");
+    std::mem::forget(reg);
+}
+// @h tier=thorough bound="tuple type (B, A, A, B) over a registry holding A,B,C,D; symbolic values" unwind=7 memsafe=1 cost=2
+#[cfg_attr(kani, kani::proof)]
+#[cfg_attr(kani, kani::unwind(7))]
+pub fn h_c02_multi_baab() {
+    let init = [sym::u8(), sym::u8(), sym::u8(), sym::u8()];
+    let mut reg = reg_abcd(init);
+    assert!(matches!(reg.try_get_multiple_mut::<(B, A, A, B)>(), Err(StateError::MultipleBorrowConflict(_))), "a tuple in which a type repeats is refused");
+    assert!(reg.try_get_value::<A>().ok() == Some(init[0]) && reg.try_get_value::<C>().ok() == Some(init[2]), "nothing changed");
+    vcover!(true, "reached");
+    std::mem::forget(reg);
+}
+// @h tier=thorough bound="tuple type (B, A, A, C) over a registry holding A,B,C,D; symbolic values" unwind=7 memsafe=1 cost=2
+#[cfg_attr(kani, kani::proof)]
+#[cfg_attr(kani, kani::unwind(7))]
+pub fn h_c02_multi_baac() {
+    let init = [sym::u8(), sym::u8(), sym::u8(), sym::u8()];
+    let mut reg = reg_abcd(init);
+    assert!(matches!(reg.try_get_multiple_mut::<(B, A, A, C)>(), Err(StateError::MultipleBorrowConflict(_))), "a tuple in which a type repeats is refused");
+    assert!(reg.try_get_value::<A>().ok() == Some(init[0]) && reg.try_get_value::<C>().ok() == Some(init[2]), "nothing changed");
+    vcover!(true, "reached");
+    std::mem::forget(reg);
+}
+// @h tier=thorough bound="tuple type (B, A, B, A) over a registry holding A,B,C,D; symbolic values" unwind=7 memsafe=1 cost=2
+#[cfg_attr(kani, kani::proof)]
+#[cfg_attr(kani, kani::unwind(7))]
+pub fn h_c02_multi_baba() {
+    let init = [sym::u8(), sym::u8(), sym::u8(), sym::u8()];
+    let mut reg = reg_abcd(init);
+    assert!(matches!(reg.try_get_multiple_mut::<(B, A, B, A)>(), Err(StateError::MultipleBorrowConflict(_))), "a tuple in which a type repeats is refused");
+    assert!(reg.try_get_value::<A>().ok() == Some(init[0]) && reg.try_get_value::<C>().ok() == Some(init[2]), "nothing changed");
+    vcover!(true, "reached");
+    std::mem::forget(reg);
+}
+// @h tier=thorough bound="tuple type (B, A, B, B) over a registry holding A,B,C,D; symbolic values" unwind=7 memsafe=1 cost=2
+#[cfg_attr(kani, kani::proof)]
+#[cfg_attr(kani, kani::unwind(7))]
+pub fn h_c02_multi_babb() {
+    let init = [sym::u8(), sym::u8(), sym::u8(), sym::u8()];
+    let mut reg = reg_abcd(init);
+    assert!(matches!(reg.try_get_multiple_mut::<(B, A, B, B)>(), Err(StateError::MultipleBorrowConflict(_))), "a tuple in which a type repeats is refused");
+    assert!(reg.try_get_value::<A>().ok() == Some(init[0]) && reg.try_get_value::<C>().ok() == Some(init[2]), "nothing changed");
+    vcover!(true, "reached");
+    std::mem::forget(reg);
+}
+// @h tier=thorough bound="tuple type (B, A, B, C) over a registry holding A,B,C,D; symbolic values" unwind=7 memsafe=1 cost=2
+#[cfg_attr(kani, kani::proof)]
+#[cfg_attr(kani, kani::unwind(7))]
+pub fn h_c02_multi_babc() {
+    let init = [sym::u8(), sym::u8(), sym::u8(), sym::u8()];
+    let mut reg = reg_abcd(init);
+    assert!(matches!(reg.try_get_multiple_mut::<(B, A, B, C)>(), Err(StateError::MultipleBorrowConflict(_))), "a tuple in which a type repeats is refused");
+    assert!(reg.try_get_value::<A>().ok() == Some(init[0]) && reg.try_get_value::<C>().ok() == Some(init[2]), "nothing changed");
+    vcover!(true, "reached");
+    std::mem::forget(reg);
+}
+// @h tier=thorough bound="tuple type (B, A, C, A) over a registry holding A,B,C,D; symbolic values" unwind=7 memsafe=1 cost=2
+#[cfg_attr(kani, kani::proof)]
+#[cfg_attr(kani, kani::unwind(7))]
+pub fn h_c02_multi_baca() {
+    let init = [sym::u8(), sym::u8(), sym::u8(), sym::u8()];
+    let mut reg = reg_abcd(init);
+    assert!(matches!(reg.try_get_multiple_mut::<(B, A, C, A)>(), Err(StateError::MultipleBorrowConflict(_))), "a tuple in which a type repeats is refused");
+    assert!(reg.try_get_value::<A>().ok() == Some(init[0]) && reg.try_get_value::<C>().ok() == Some(init[2]), "nothing changed");
+    vcover!(true, "reached");
+    std::mem::forget(reg);
+}
+// @h tier=thorough bound="tuple type (B, A, C, B) over a registry holding A,B,C,D; symbolic values" unwind=7 memsafe=1 cost=2
+#[cfg_attr(kani, kani::proof)]
+#[cfg_attr(kani, kani::unwind(7))]
+pub fn h_c02_multi_bacb() {
+    let init = [sym::u8(), sym::u8(), sym::u8(), sym::u8()];
+    let mut reg = reg_abcd(init);
+    assert!(matches!(reg.try_get_multiple_mut::<(B, A, C, B)>(), Err(StateError::MultipleBorrowConflict(_))), "a tuple in which a type repeats is refused");
+    assert!(reg.try_get_value::<A>().ok() == Some(init[0]) && reg.try_get_value::<C>().ok() == Some(init[2]), "nothing changed");
+    vcover!(true, "reached");
+    std::mem::forget(reg);
+}
+// @h tier=thorough bound="tuple type (B, A, C, C) over a registry holding A,B,C,D; symbolic values" unwind=7 memsafe=1 cost=2
+#[cfg_attr(kani, kani::proof)]
+#[cfg_attr(kani, kani::unwind(7))]
+pub fn h_c02_multi_bacc() {
+    let init = [sym::u8(), sym::u8(), sym::u8(), sym::u8()];
+    let mut reg = reg_abcd(init);
+    assert!(matches!(reg.try_get_multiple_mut::<(B, A, C, C)>(), Err(StateError::MultipleBorrowConflict(_))), "a tuple in which a type repeats is refused");
+    assert!(reg.try_get_value::<A>().ok() == Some(init[0]) && reg.try_get_value::<C>().ok() == Some(init[2]), "nothing changed");
+    vcover!(true, "reached");
+    std::mem::forget(reg);
+}
+// @h tier=thorough bound="tuple type (B, B, A, A) over a registry holding A,B,C,D; symbolic values" unwind=7 memsafe=1 cost=2
+#[cfg_attr(kani, kani::proof)]
+#[cfg_attr(kani, kani::unwind(7))]
+pub fn h_c02_multi_bbaa() {
+    let init = [sym::u8(), sym::u8(), sym::u8(), sym::u8()];
+    let mut reg = reg_abcd(init);
+    assert!(matches!(reg.try_get_multiple_mut::<(B, B, A, A)>(), Err(StateError::MultipleBorrowConflict(_))), "a tuple in which a type repeats is refused");
+    assert!(reg.try_get_value::<A>().ok() == Some(init[0]) && reg.try_get_value::<C>().ok() == Some(init[2]), "nothing changed");
+    vcover!(true, "reached");
+    std::mem::forget(reg);
+}
+// @h tier=thorough bound="tuple type (B, B, A, B) over a registry holding A,B,C,D; symbolic values" unwind=7 memsafe=1 cost=2
+#[cfg_attr(kani, kani::proof)]
+#[cfg_attr(kani, kani::unwind(7))]
+pub fn h_c02_multi_bbab() {
+    let init = [sym::u8(), sym::u8(), sym::u8(), sym::u8()];
+    let mut reg = reg_abcd(init);
+    assert!(matches!(reg.try_get_multiple_mut::<(B, B, A, B)>(), Err(StateError::MultipleBorrowConflict(_))), "a tuple in which a type repeats is refused");
+    assert!(reg.try_get_value::<A>().ok() == Some(init[0]) && reg.try_get_value::<C>().ok() == Some(init[2]), "nothing changed");
+    vcover!(true, "reached");
+    std::mem::forget(reg);
+}
+// @h tier=thorough bound="tuple type (B, B, A, C) over a registry holding A,B,C,D; symbolic values" unwind=7 memsafe=1 cost=2
+#[cfg_attr(kani, kani::proof)]
+#[cfg_attr(kani, kani::unwind(7))]
+pub fn h_c02_multi_bbac() {
+    let init = [sym::u8(), sym::u8(), sym::u8(), sym::u8()];
+    let mut reg = reg_abcd(init);
+    assert!(matches!(reg.try_get_multiple_mut::<(B, B, A, C)>(), Err(StateError::MultipleBorrowConflict(_))), "a tuple in which a type repeats is refused");
+    assert!(reg.try_get_value::<A>().ok() == Some(init[0]) && reg.try_get_value::<C>().ok() == Some(init[2]), "nothing changed");
+    vcover!(true, "reached");
+    std::mem::forget(reg);
+}
+// @h tier=thorough bound="tuple type (B, B, B, A) over a registry holding A,B,C,D; symbolic values" unwind=7 memsafe=1 cost=2
+#[cfg_attr(kani, kani::proof)]
+#[cfg_attr(kani, kani::unwind(7))]
+pub fn h_c02_multi_bbba() {
+    let init = [sym::u8(), sym::u8(), sym::u8(), sym::u8()];
+    let mut reg = reg_abcd(init);
+    assert!(matches!(reg.try_get_multiple_mut::<(B, B, B, A)>(), Err(StateError::MultipleBorrowConflict(_))), "a tuple in which a type repeats is refused");
+    assert!(reg.try_get_value::<A>().ok() == Some(init[0]) && reg.try_get_value::<C>().ok() == Some(init[2]), "nothing changed");
+    vcover!(true, "reached");
+    std::mem::forget(reg);
+}
+// @h tier=thorough bound="tuple type (B, B, B, B) over a registry holding A,B,C,D; symbolic values" unwind=7 memsafe=1 cost=2
+#[cfg_attr(kani, kani::proof)]
+#[cfg_attr(kani, kani::unwind(7))]
+pub fn h_c02_multi_bbbb() {
+    let init = [sym::u8(), sym::u8(), sym::u8(), sym::u8()];
+    let mut reg = reg_abcd(init);
+    assert!(matches!(reg.try_get_multiple_mut::<(B, B, B, B)>(), Err(StateError::MultipleBorrowConflict(_))), "a tuple in which a type repeats is refused");
+    assert!(reg.try_get_value::<A>().ok() == Some(init[0]) && reg.try_get_value::<C>().ok() == Some(init[2]), "nothing changed");
+    vcover!(true, "reached");
+    std::mem::forget(reg);
+}
+// @h tier=thorough bound="tuple type (B, B, B, C) over a registry holding A,B,C,D; symbolic values" unwind=7 memsafe=1 cost=2
+#[cfg_attr(kani, kani::proof)]
+#[cfg_attr(kani, kani::unwind(7))]
+pub fn h_c02_multi_bbbc() {
+    let init = [sym::u8(), sym::u8(), sym::u8(), sym::u8()];
+    let mut reg = reg_abcd(init);
+    assert!(matches!(reg.try_get_multiple_mut::<(B, B, B, C)>(), Err(StateError::MultipleBorrowConflict(_))), "a tuple in which a type repeats is refused");
+    assert!(reg.try_get_value::<A>().ok() == Some(init[0]) && reg.try_get_value::<C>().ok() == Some(init[2]), "nothing changed");
+    vcover!(true, "reached");
+    std::mem::forget(reg);
+}
+// @h tier=thorough bound="tuple type (B, B, C, A) over a registry holding A,B,C,D; symbolic values" unwind=7 memsafe=1 cost=2
+#[cfg_attr(kani, kani::proof)]
+#[cfg_attr(kani, kani::unwind(7))]
+pub fn h_c02_multi_bbca() {
+    let init = [sym::u8(), sym::u8(), sym::u8(), sym::u8()];
+    let mut reg = reg_abcd(init);
+    assert!(matches!(reg.try_get_multiple_mut::<(B, B, C, A)>(), Err(StateError::MultipleBorrowConflict(_))), "a tuple in which a type repeats is refused");
+    assert!(reg.try_get_value::<A>().ok() == Some(init[0]) && reg.try_get_value::<C>().ok() == Some(init[2]), "nothing changed");
+    vcover!(true, "reached");
+    std::mem::forget(reg);
+}
+// @h tier=thorough bound="tuple type (B, B, C, B) over a registry holding A,B,C,D; symbolic values" unwind=7 memsafe=1 cost=2
+#[cfg_attr(kani, kani::proof)]
+#[cfg_attr(kani, kani::unwind(7))]
+pub fn h_c02_multi_bbcb() {
+    let init = [sym::u8(), sym::u8(), sym::u8(), sym::u8()];
+    let mut reg = reg_abcd(init);
+    assert!(matches!(reg.try_get_multiple_mut::<(B, B, C, B)>(), Err(StateError::MultipleBorrowConflict(_))), "a tuple in which a type repeats is refused");
+    assert!(reg.try_get_value::<A>().ok() == Some(init[0]) && reg.try_get_value::<C>().ok() == Some(init[2]), "nothing changed");
+    vcover!(true, "reached");
+    std::mem::forget(reg);
+}
+// @h tier=thorough bound="tuple type (B, B, C, C) over a registry holding A,B,C,D; symbolic values" unwind=7 memsafe=1 cost=2
+#[cfg_attr(kani, kani::proof)]
+#[cfg_attr(kani, kani::unwind(7))]
+pub fn h_c02_multi_bbcc() {
+    let init = [sym::u8(), sym::u8(), sym::u8(), sym::u8()];
+    let mut reg = reg_abcd(init);
+    assert!(matches!(reg.try_get_multiple_mut::<(B, B, C, C)>(), Err(StateError::MultipleBorrowConflict(_))), "a tuple in which a type repeats is refused");
+    assert!(reg.try_get_value::<A>().ok() == Some(init[0]) && reg.try_get_value::<C>().ok() == Some(init[2]), "nothing changed");
+    vcover!(true, "reached");
+    std::mem::forget(reg);
+}
+// @h tier=thorough bound="tuple type (B, C, A, A) over a registry holding A,B,C,D; symbolic values" unwind=7 memsafe=1 cost=2
+#[cfg_attr(kani, kani::proof)]
+#[cfg_attr(kani, kani::unwind(7))]
+pub fn h_c02_multi_bcaa() {
+    let init = [sym::u8(), sym::u8(), sym::u8(), sym::u8()];
+    let mut reg = reg_abcd(init);
+    assert!(matches!(reg.try_get_multiple_mut::<(B, C, A, A)>(), Err(StateError::MultipleBorrowConflict(_))), "a tuple in which a type repeats is refused");
+    assert!(reg.try_get_value::<A>().ok() == Some(init[0]) && reg.try_get_value::<C>().ok() == Some(init[2]), "nothing changed");
+    vcover!(true, "reached");
+    std::mem::forget(reg);
+}
+// @h tier=thorough bound="tuple type (B, C, A, B) over a registry holding A,B,C,D; symbolic values" unwind=7 memsafe=1 cost=2
+#[cfg_attr(kani, kani::proof)]
+#[cfg_attr(kani, kani::unwind(7))]
+pub fn h_c02_multi_bcab() {
+    let init = [sym::u8(), sym::u8(), sym::u8(), sym::u8()];
+    let mut reg = reg_abcd(init);
+    assert!(matches!(reg.try_get_multiple_mut::<(B, C, A, B)>(), Err(StateError::MultipleBorrowConflict(_))), "a tuple in which a type repeats is refused");
+    assert!(reg.try_get_value::<A>().ok() == Some(init[0]) && reg.try_get_value::<C>().ok() == Some(init[2]), "nothing changed");
+    vcover!(true, "reached");
+    std::mem::forget(reg);
+}
+// @h tier=thorough bound="tuple type (B, C, A, C) over a registry holding A,B,C,D; symbolic values" unwind=7 memsafe=1 cost=2
+#[cfg_attr(kani, kani::proof)]
+#[cfg_attr(kani, kani::unwind(7))]
+pub fn h_c02_multi_bcac() {
+    let init = [sym::u8(), sym::u8(), sym::u8(), sym::u8()];
+    let mut reg = reg_abcd(init);
+    assert!(matches!(reg.try_get_multiple_mut::<(B, C, A, C)>(), Err(StateError::MultipleBorrowConflict(_))), "a tuple in which a type repeats is refused");
+    assert!(reg.try_get_value::<A>().ok() == Some(init[0]) && reg.try_get_value::<C>().ok() == Some(init[2]), "nothing changed");
+    vcover!(true, "reached");
+    std::mem::forget(reg);
+}
+// @h tier=thorough bound="tuple type (B, C, B, A) over a registry holding A,B,C,D; symbolic values" unwind=7 memsafe=1 cost=2
+#[cfg_attr(kani, kani::proof)]
+#[cfg_attr(kani, kani::unwind(7))]
+pub fn h_c02_multi_bcba() {
+    let init = [sym::u8(), sym::u8(), sym::u8(), sym::u8()];
+    let mut reg = reg_abcd(init);
+    assert!(matches!(reg.try_get_multiple_mut::<(B, C, B, A)>(), Err(StateError::MultipleBorrowConflict(_))), "a tuple in which a type repeats is refused");
+    assert!(reg.try_get_value::<A>().ok() == Some(init[0]) && reg.try_get_value::<C>().ok() == Some(init[2]), "nothing changed");
+    vcover!(true, "reached");
+    std::mem::forget(reg);
+}
+// @h tier=thorough bound="tuple type (B, C, B, B) over a registry holding A,B,C,D; symbolic values" unwind=7 memsafe=1 cost=2
+#[cfg_attr(kani, kani::proof)]
+#[cfg_attr(kani, kani::unwind(7))]
+pub fn h_c02_multi_bcbb() {
+    let init = [sym::u8(), sym::u8(), sym::u8(), sym::u8()];
+    let mut reg = reg_abcd(init);
+    assert!(matches!(reg.try_get_multiple_mut::<(B, C, B, B)>(), Err(StateError::MultipleBorrowConflict(_))), "a tuple in which a type repeats is refused");
+    assert!(reg.try_get_value::<A>().ok() == Some(init[0]) && reg.try_get_value::<C>().ok() == Some(init[2]), "nothing changed");
+    vcover!(true, "reached");
+    std::mem::forget(reg);
+}
+// @h tier=thorough bound="tuple type (B, C, B, C) over a registry holding A,B,C,D; symbolic values" unwind=7 memsafe=1 cost=2
+#[cfg_attr(kani, kani::proof)]
+#[cfg_attr(kani, kani::unwind(7))]
+pub fn h_c02_multi_bcbc() {
+    let init = [sym::u8(), sym::u8(), sym::u8(), sym::u8()];
+    let mut reg = reg_abcd(init);
+    assert!(matches!(reg.try_get_multiple_mut::<(B, C, B, C)>(), Err(StateError::MultipleBorrowConflict(_))), "a tuple in which a type repeats is refused");
+    assert!(reg.try_get_value::<A>().ok() == Some(init[0]) && reg.try_get_value::<C>().ok() == Some(init[2]), "nothing changed");
+    vcover!(true, "reached");
+    std::mem::forget(reg);
+}
+// @h tier=thorough bound="tuple type (B, C, C, A) over a registry holding A,B,C,D; symbolic values" unwind=7 memsafe=1 cost=2
+#[cfg_attr(kani, kani::proof)]
+#[cfg_attr(kani, kani::unwind(7))]
+pub fn h_c02_multi_bcca() {
+    let init = [sym::u8(), sym::u8(), sym::u8(), sym::u8()];
+    let mut reg = reg_abcd(init);
+    assert!(matches!(reg.try_get_multiple_mut::<(B, C, C, A)>(), Err(StateError::MultipleBorrowConflict(_))), "a tuple in which a type repeats is refused");
+    assert!(reg.try_get_value::<A>().ok() == Some(init[0]) && reg.try_get_value::<C>().ok() == Some(init[2]), "nothing changed");
+    vcover!(true, "reached");
+    std::mem::forget(reg);
+}
+// @h tier=thorough bound="tuple type (B, C, C, B) over a registry holding A,B,C,D; symbolic values" unwind=7 memsafe=1 cost=2
+#[cfg_attr(kani, kani::proof)]
+#[cfg_attr(kani, kani::unwind(7))]
+pub fn h_c02_multi_bccb() {
+    let init = [sym::u8(), sym::u8(), sym::u8(), sym::u8()];
+    let mut reg = reg_abcd(init);
+    assert!(matches!(reg.try_get_multiple_mut::<(B, C, C, B)>(), Err(StateError::MultipleBorrowConflict(_))), "a tuple in which a type repeats is refused");
+    assert!(reg.try_get_value::<A>().ok() == Some(init[0]) && reg.try_get_value::<C>().ok() == Some(init[2]), "nothing changed");
+    vcover!(true, "reached");
+    std::mem::forget(reg);
+}
+// @h tier=thorough bound="tuple type (B, C, C, C) over a registry holding A,B,C,D; symbolic values" unwind=7 memsafe=1 cost=2
+#[cfg_attr(kani, kani::proof)]
+#[cfg_attr(kani, kani::unwind(7))]
+pub fn h_c02_multi_bccc() {
+    let init = [sym::u8(), sym::u8(), sym::u8(), sym::u8()];
+    let mut reg = reg_abcd(init);
+    assert!(matches!(reg.try_get_multiple_mut::<(B, C, C, C)>(), Err(StateError::MultipleBorrowConflict(_))), "a tuple in which a type repeats is refused");
+    assert!(reg.try_get_value::<A>().ok() == Some(init[0]) && reg.try_get_value::<C>().ok() == Some(init[2]), "nothing changed");
+    vcover!(true, "reached");
+    std::mem::forget(reg);
+}
+// @h tier=thorough bound="tuple type (C, A, A, A) over a registry holding A,B,C,D; symbolic values" unwind=7 memsafe=1 cost=2
+#[cfg_attr(kani, kani::proof)]
+#[cfg_attr(kani, kani::unwind(7))]
+pub fn h_c02_multi_caaa() {
+    let init = [sym::u8(), sym::u8(), sym::u8(), sym::u8()];
+    let mut reg = reg_abcd(init);
+    assert!(matches!(reg.try_get_multiple_mut::<(C, A, A, A)>(), Err(StateError::MultipleBorrowConflict(_))), "a tuple in which a type repeats is refused");
+    assert!(reg.try_get_value::<A>().ok() == Some(init[0]) && reg.try_get_value::<C>().ok() == Some(init[2]), "nothing changed");
+    vcover!(true, "reached");
+    std::mem::forget(reg);
+}
+// @h tier=thorough bound="tuple type (C, A, A, B) over a registry holding A,B,C,D; symbolic values" unwind=7 memsafe=1 cost=2
+#[cfg_attr(kani, kani::proof)]
+#[cfg_attr(kani, kani::unwind(7))]
+pub fn h_c02_multi_caab() {
+    let init = [sym::u8(), sym::u8(), sym::u8(), sym::u8()];
+    let mut reg = reg_abcd(init);
+    assert!(matches!(reg.try_get_multiple_mut::<(C, A, A, B)>(), Err(StateError::MultipleBorrowConflict(_))), "a tuple in which a type repeats is refused");
+    assert!(reg.try_get_value::<A>().ok() == Some(init[0]) && reg.try_get_value::<C>().ok() == Some(init[2]), "nothing changed");
+    vcover!(true, "reached");
+    std::mem::forget(reg);
+}
+// @h tier=thorough bound="tuple type (C, A, A, C) over a registry holding A,B,C,D; symbolic values" unwind=7 memsafe=1 cost=2
+#[cfg_attr(kani, kani::proof)]
+#[cfg_attr(kani, kani::unwind(7))]
+pub fn h_c02_multi_caac() {
+    let init = [sym::u8(), sym::u8(), sym::u8(), sym::u8()];
+    let mut reg = reg_abcd(init);
+    assert!(matches!(reg.try_get_multiple_mut::<(C, A, A, C)>(), Err(StateError::MultipleBorrowConflict(_))), "a tuple in which a type repeats is refused");
+    assert!(reg.try_get_value::<A>().ok() == Some(init[0]) && reg.try_get_value::<C>().ok() == Some(init[2]), "nothing changed");
+    vcover!(true, "reached");
+    std::mem::forget(reg);
+}
+// @h tier=thorough bound="tuple type (C, A, B, A) over a registry holding A,B,C,D; symbolic values" unwind=7 memsafe=1 cost=2
+#[cfg_attr(kani, kani::proof)]
+#[cfg_attr(kani, kani::unwind(7))]
+pub fn h_c02_multi_caba() {
+    let init = [sym::u8(), sym::u8(), sym::u8(), sym::u8()];
+    let mut reg = reg_abcd(init);
+    assert!(matches!(reg.try_get_multiple_mut::<(C, A, B, A)>(), Err(StateError::MultipleBorrowConflict(_))), "a tuple in which a type repeats is refused");
+    assert!(reg.try_get_value::<A>().ok() == Some(init[0]) && reg.try_get_value::<C>().ok() == Some(init[2]), "nothing changed");
+    vcover!(true, "reached");
+    std::mem::forget(reg);
+}
+// @h tier=thorough bound="tuple type (C, A, B, B) over a registry holding A,B,C,D; symbolic values" unwind=7 memsafe=1 cost=2
+#[cfg_attr(kani, kani::proof)]
+#[cfg_attr(kani, kani::unwind(7))]
+pub fn h_c02_multi_cabb() {
+    let init = [sym::u8(), sym::u8(), sym::u8(), sym::u8()];
+    let mut reg = reg_abcd(init);
+    assert!(matches!(reg.try_get_multiple_mut::<(C, A, B, B)>(), Err(StateError::MultipleBorrowConflict(_))), "a tuple in which a type repeats is refused");
+    assert!(reg.try_get_value::<A>().ok() == Some(init[0]) && reg.try_get_value::<C>().ok() == Some(init[2]), "nothing changed");
+    vcover!(true, "reached");
+    std::mem::forget(reg);
+}
+// @h tier=thorough bound="tuple type (C, A, B, C) over a registry holding A,B,C,D; symbolic values" unwind=7 memsafe=1 cost=2
+#[cfg_attr(kani, kani::proof)]
+#[cfg_attr(kani, kani::unwind(7))]
+pub fn h_c02_multi_cabc() {
+    let init = [sym::u8(), sym::u8(), sym::u8(), sym::u8()];
+    let mut reg = reg_abcd(init);
+    assert!(matches!(reg.try_get_multiple_mut::<(C, A, B, C)>(), Err(StateError::MultipleBorrowConflict(_))), "a tuple in which a type repeats is refused");
+    assert!(reg.try_get_value::<A>().ok() == Some(init[0]) && reg.try_get_value::<C>().ok() == Some(init[2]), "nothing changed");
+    vcover!(true, "reached");
+    std::mem::forget(reg);
+}
+// @h tier=thorough bound="tuple type (C, A, C, A) over a registry holding A,B,C,D; symbolic values" unwind=7 memsafe=1 cost=2
+#[cfg_attr(kani, kani::proof)]
+#[cfg_attr(kani, kani::unwind(7))]
+pub fn h_c02_multi_caca() {
+    let init = [sym::u8(), sym::u8(), sym::u8(), sym::u8()];
+    let mut reg = reg_abcd(init);
+    assert!(matches!(reg.try_get_multiple_mut::<(C, A, C, A)>(), Err(StateError::MultipleBorrowConflict(_))), "a tuple in which a type repeats is refused");
+    assert!(reg.try_get_value::<A>().ok() == Some(init[0]) && reg.try_get_value::<C>().ok() == Some(init[2]), "nothing changed");
+    vcover!(true, "reached");
+    std::mem::forget(reg);
+}
+// @h tier=thorough bound="tuple type (C, A, C, B) over a registry holding A,B,C,D; symbolic values" unwind=7 memsafe=1 cost=2
+#[cfg_attr(kani, kani::proof)]
+#[cfg_attr(kani, kani::unwind(7))]
+pub fn h_c02_multi_cacb() {
+    let init = [sym::u8(), sym::u8(), sym::u8(), sym::u8()];
+    let mut reg = reg_abcd(init);
+    assert!(matches!(reg.try_get_multiple_mut::<(C, A, C, B)>(), Err(StateError::MultipleBorrowConflict(_))), "a tuple in which a type repeats is refused");
+    assert!(reg.try_get_value::<A>().ok() == Some(init[0]) && reg.try_get_value::<C>().ok() == Some(init[2]), "nothing changed");
+    vcover!(true, "reached");
+    std::mem::forget(reg);
+}
+// @h tier=thorough bound="tuple type (C, A, C, C) over a registry holding A,B,C,D; symbolic values" unwind=7 memsafe=1 cost=2
+#[cfg_attr(kani, kani::proof)]
+#[cfg_attr(kani, kani::unwind(7))]
+pub fn h_c02_multi_cacc() {
+    let init = [sym::u8(), sym::u8(), sym::u8(), sym::u8()];
+    let mut reg = reg_abcd(init);
+    assert!(matches!(reg.try_get_multiple_mut::<(C, A, C, C)>(), Err(StateError::MultipleBorrowConflict(_))), "a tuple in which a type repeats is refused");
+    assert!(reg.try_get_value::<A>().ok() == Some(init[0]) && reg.try_get_value::<C>().ok() == Some(init[2]), "nothing changed");
+    vcover!(true, "reached");
+    std::mem::forget(reg);
+}
+// @h tier=thorough bound="tuple type (C, B, A, A) over a registry holding A,B,C,D; symbolic values" unwind=7 memsafe=1 cost=2
+#[cfg_attr(kani, kani::proof)]
+#[cfg_attr(kani, kani::unwind(7))]
+pub fn h_c02_multi_cbaa() {
+    let init = [sym::u8(), sym::u8(), sym::u8(), sym::u8()];
+    let mut reg = reg_abcd(init);
+    assert!(matches!(reg.try_get_multiple_mut::<(C, B, A, A)>(), Err(StateError::MultipleBorrowConflict(_))), "a tuple in which a type repeats is refused");
+    assert!(reg.try_get_value::<A>().ok() == Some(init[0]) && reg.try_get_value::<C>().ok() == Some(init[2]), "nothing changed");
+    vcover!(true, "reached");
+    std::mem::forget(reg);
+}
+// @h tier=thorough bound="tuple type (C, B, A, B) over a registry holding A,B,C,D; symbolic values" unwind=7 memsafe=1 cost=2
+#[cfg_attr(kani, kani::proof)]
+#[cfg_attr(kani, kani::unwind(7))]
+pub fn h_c02_multi_cbab() {
+    let init = [sym::u8(), sym::u8(), sym::u8(), sym::u8()];
+    let mut reg = reg_abcd(init);
+    assert!(matches!(reg.try_get_multiple_mut::<(C, B, A, B)>(), Err(StateError::MultipleBorrowConflict(_))), "a tuple in which a type repeats is refused");
+    assert!(reg.try_get_value::<A>().ok() == Some(init[0]) && reg.try_get_value::<C>().ok() == Some(init[2]), "nothing changed");
+    vcover!(true, "reached");
+    std::mem::forget(reg);
+}
+// @h tier=thorough bound="tuple type (C, B, A, C) over a registry holding A,B,C,D; symbolic values" unwind=7 memsafe=1 cost=2
+#[cfg_attr(kani, kani::proof)]
+#[cfg_attr(kani, kani::unwind(7))]
+pub fn h_c02_multi_cbac() {
+    let init = [sym::u8(), sym::u8(), sym::u8(), sym::u8()];
+    let mut reg = reg_abcd(init);
+    assert!(matches!(reg.try_get_multiple_mut::<(C, B, A, C)>(), Err(StateError::MultipleBorrowConflict(_))), "a tuple in which a type repeats is refused");
+    assert!(reg.try_get_value::<A>().ok() == Some(init[0]) && reg.try_get_value::<C>().ok() == Some(init[2]), "nothing changed");
+    vcover!(true, "reached");
+    std::mem::forget(reg);
+}
+// @h tier=thorough bound="tuple type (C, B, B, A) over a registry holding A,B,C,D; symbolic values" unwind=7 memsafe=1 cost=2
+#[cfg_attr(kani, kani::proof)]
+#[cfg_attr(kani, kani::unwind(7))]
+pub fn h_c02_multi_cbba() {
+    let init = [sym::u8(), sym::u8(), sym::u8(), sym::u8()];
+    let mut reg = reg_abcd(init);
+    assert!(matches!(reg.try_get_multiple_mut::<(C, B, B, A)>(), Err(StateError::MultipleBorrowConflict(_))), "a tuple in which a type repeats is refused");
+    assert!(reg.try_get_value::<A>().ok() == Some(init[0]) && reg.try_get_value::<C>().ok() == Some(init[2]), "nothing changed");
+    vcover!(true, "reached");
+    std::mem::forget(reg);
+}
+// @h tier=thorough bound="tuple type (C, B, B, B) over a registry holding A,B,C,D; symbolic values" unwind=7 memsafe=1 cost=2
+#[cfg_attr(kani, kani::proof)]
+#[cfg_attr(kani, kani::unwind(7))]
+pub fn h_c02_multi_cbbb() {
+    let init = [sym::u8(), sym::u8(), sym::u8(), sym::u8()];
+    let mut reg = reg_abcd(init);
+    assert!(matches!(reg.try_get_multiple_mut::<(C, B, B, B)>(), Err(StateError::MultipleBorrowConflict(_))), "a tuple in which a type repeats is refused");
+    assert!(reg.try_get_value::<A>().ok() == Some(init[0]) && reg.try_get_value::<C>().ok() == Some(init[2]), "nothing changed");
+    vcover!(true, "reached");
+    std::mem::forget(reg);
+}
+// @h tier=thorough bound="tuple type (C, B, B, C) over a registry holding A,B,C,D; symbolic values" unwind=7 memsafe=1 cost=2
+#[cfg_attr(kani, kani::proof)]
+#[cfg_attr(kani, kani::unwind(7))]
+pub fn h_c02_multi_cbbc() {
+    let init = [sym::u8(), sym::u8(), sym::u8(), sym::u8()];
+    let mut reg = reg_abcd(init);
+    assert!(matches!(reg.try_get_multiple_mut::<(C, B, B, C)>(), Err(StateError::MultipleBorrowConflict(_))), "a tuple in which a type repeats is refused");
+    assert!(reg.try_get_value::<A>().ok() == Some(init[0]) && reg.try_get_value::<C>().ok() == Some(init[2]), "nothing changed");
+    vcover!(true, "reached");
+    std::mem::forget(reg);
+}
+// @h tier=thorough bound="tuple type (C, B, C, A) over a registry holding A,B,C,D; symbolic values" unwind=7 memsafe=1 cost=2
+#[cfg_attr(kani, kani::proof)]
+#[cfg_attr(kani, kani::unwind(7))]
+pub fn h_c02_multi_cbca() {
+    let init = [sym::u8(), sym::u8(), sym::u8(), sym::u8()];
+    let mut reg = reg_abcd(init);
+    assert!(matches!(reg.try_get_multiple_mut::<(C, B, C, A)>(), Err(StateError::MultipleBorrowConflict(_))), "a tuple in which a type repeats is refused");
+    assert!(reg.try_get_value::<A>().ok() == Some(init[0]) && reg.try_get_value::<C>().ok() == Some(init[2]), "nothing changed");
+    vcover!(true, "reached");
+    std::mem::forget(reg);
+}
+// @h tier=thorough bound="tuple type (C, B, C, B) over a registry holding A,B,C,D; symbolic values" unwind=7 memsafe=1 cost=2
+#[cfg_attr(kani, kani::proof)]
+#[cfg_attr(kani, kani::unwind(7))]
+pub fn h_c02_multi_cbcb() {
+    let init = [sym::u8(), sym::u8(), sym::u8(), sym::u8()];
+    let mut reg = reg_abcd(init);
+    assert!(matches!(reg.try_get_multiple_mut::<(C, B, C, B)>(), Err(StateError::MultipleBorrowConflict(_))), "a tuple in which a type repeats is refused");
+    assert!(reg.try_get_value::<A>().ok() == Some(init[0]) && reg.try_get_value::<C>().ok() == Some(init[2]), "nothing changed");
+    vcover!(true, "reached");
+    std::mem::forget(reg);
+}
+// @h tier=thorough bound="tuple type (C, B, C, C) over a registry holding A,B,C,D; symbolic values" unwind=7 memsafe=1 cost=2
+#[cfg_attr(kani, kani::proof)]
+#[cfg_attr(kani, kani::unwind(7))]
+pub fn h_c02_multi_cbcc() {
+    let init = [sym::u8(), sym::u8(), sym::u8(), sym::u8()];
+    let mut reg = reg_abcd(init);
+    assert!(matches!(reg.try_get_multiple_mut::<(C, B, C, C)>(), Err(StateError::MultipleBorrowConflict(_))), "a tuple in which a type repeats is refused");
+    assert!(reg.try_get_value::<A>().ok() == Some(init[0]) && reg.try_get_value::<C>().ok() == Some(init[2]), "nothing changed");
+    vcover!(true, "reached");
+    std::mem::forget(reg);
+}
+// @h tier=thorough bound="tuple type (C, C, A, A) over a registry holding A,B,C,D; symbolic values" unwind=7 memsafe=1 cost=2
+#[cfg_attr(kani, kani::proof)]
+#[cfg_attr(kani, kani::unwind(7))]
+pub fn h_c02_multi_ccaa() {
+    let init = [sym::u8(), sym::u8(), sym::u8(), sym::u8()];
+    let mut reg = reg_abcd(init);
+    assert!(matches!(reg.try_get_multiple_mut::<(C, C, A, A)>(), Err(StateError::MultipleBorrowConflict(_))), "a tuple in which a type repeats is refused");
+    assert!(reg.try_get_value::<A>().ok() == Some(init[0]) && reg.try_get_value::<C>().ok() == Some(init[2]), "nothing changed");
+    vcover!(true, "reached");
+    std::mem::forget(reg);
+}
+// @h tier=thorough bound="tuple type (C, C, A, B) over a registry holding A,B,C,D; symbolic values" unwind=7 memsafe=1 cost=2
+#[cfg_attr(kani, kani::proof)]
+#[cfg_attr(kani, kani::unwind(7))]
+pub fn h_c02_multi_ccab() {
+    let init = [sym::u8(), sym::u8(), sym::u8(), sym::u8()];
+    let mut reg = reg_abcd(init);
+    assert!(matches!(reg.try_get_multiple_mut::<(C, C, A, B)>(), Err(StateError::MultipleBorrowConflict(_))), "a tuple in which a type repeats is refused");
+    assert!(reg.try_get_value::<A>().ok() == Some(init[0]) && reg.try_get_value::<C>().ok() == Some(init[2]), "nothing changed");
+    vcover!(true, "reached");
+    std::mem::forget(reg);
+}
+// @h tier=thorough bound="tuple type (C, C, A, C) over a registry holding A,B,C,D; symbolic values" unwind=7 memsafe=1 cost=2
+#[cfg_attr(kani, kani::proof)]
+#[cfg_attr(kani, kani::unwind(7))]
+pub fn h_c02_multi_ccac() {
+    let init = [sym::u8(), sym::u8(), sym::u8(), sym::u8()];
+    let mut reg = reg_abcd(init);
+    assert!(matches!(reg.try_get_multiple_mut::<(C, C, A, C)>(), Err(StateError::MultipleBorrowConflict(_))), "a tuple in which a type repeats is refused");
+    assert!(reg.try_get_value::<A>().ok() == Some(init[0]) && reg.try_get_value::<C>().ok() == Some(init[2]), "nothing changed");
+    vcover!(true, "reached");
+    std::mem::forget(reg);
+}
+// @h tier=thorough bound="tuple type (C, C, B, A) over a registry holding A,B,C,D; symbolic values" unwind=7 memsafe=1 cost=2
+#[cfg_attr(kani, kani::proof)]
+#[cfg_attr(kani, kani::unwind(7))]
+pub fn h_c02_multi_ccba() {
+    let init = [sym::u8(), sym::u8(), sym::u8(), sym::u8()];
+    let mut reg = reg_abcd(init);
+    assert!(matches!(reg.try_get_multiple_mut::<(C, C, B, A)>(), Err(StateError::MultipleBorrowConflict(_))), "a tuple in which a type repeats is refused");
+    assert!(reg.try_get_value::<A>().ok() == Some(init[0]) && reg.try_get_value::<C>().ok() == Some(init[2]), "nothing changed");
+    vcover!(true, "reached");
+    std::mem::forget(reg);
+}
+// @h tier=thorough bound="tuple type (C, C, B, B) over a registry holding A,B,C,D; symbolic values" unwind=7 memsafe=1 cost=2
+#[cfg_attr(kani, kani::proof)]
+#[cfg_attr(kani, kani::unwind(7))]
+pub fn h_c02_multi_ccbb() {
+    let init = [sym::u8(), sym::u8(), sym::u8(), sym::u8()];
+    let mut reg = reg_abcd(init);
+    assert!(matches!(reg.try_get_multiple_mut::<(C, C, B, B)>(), Err(StateError::MultipleBorrowConflict(_))), "a tuple in which a type repeats is refused");
+    assert!(reg.try_get_value::<A>().ok() == Some(init[0]) && reg.try_get_value::<C>().ok() == Some(init[2]), "nothing changed");
+    vcover!(true, "reached");
+    std::mem::forget(reg);
+}
+// @h tier=thorough bound="tuple type (C, C, B, C) over a registry holding A,B,C,D; symbolic values" unwind=7 memsafe=1 cost=2
+#[cfg_attr(kani, kani::proof)]
+#[cfg_attr(kani, kani::unwind(7))]
+pub fn h_c02_multi_ccbc() {
+    let init = [sym::u8(), sym::u8(), sym::u8(), sym::u8()];
+    let mut reg = reg_abcd(init);
+    assert!(matches!(reg.try_get_multiple_mut::<(C, C, B, C)>(), Err(StateError::MultipleBorrowConflict(_))), "a tuple in which a type repeats is refused");
+    assert!(reg.try_get_value::<A>().ok() == Some(init[0]) && reg.try_get_value::<C>().ok() == Some(init[2]), "nothing changed");
+    vcover!(true, "reached");
+    std::mem::forget(reg);
+}
+// @h tier=thorough bound="tuple type (C, C, C, A) over a registry holding A,B,C,D; symbolic values" unwind=7 memsafe=1 cost=2
+#[cfg_attr(kani, kani::proof)]
+#[cfg_attr(kani, kani::unwind(7))]
+pub fn h_c02_multi_ccca() {
+    let init = [sym::u8(), sym::u8(), sym::u8(), sym::u8()];
+    let mut reg = reg_abcd(init);
+    assert!(matches!(reg.try_get_multiple_mut::<(C, C, C, A)>(), Err(StateError::MultipleBorrowConflict(_))), "a tuple in which a type repeats is refused");
+    assert!(reg.try_get_value::<A>().ok() == Some(init[0]) && reg.try_get_value::<C>().ok() == Some(init[2]), "nothing changed");
+    vcover!(true, "reached");
+    std::mem::forget(reg);
+}
+// @h tier=thorough bound="tuple type (C, C, C, B) over a registry holding A,B,C,D; symbolic values" unwind=7 memsafe=1 cost=2
+#[cfg_attr(kani, kani::proof)]
+#[cfg_attr(kani, kani::unwind(7))]
+pub fn h_c02_multi_cccb() {
+    let init = [sym::u8(), sym::u8(), sym::u8(), sym::u8()];
+    let mut reg = reg_abcd(init);
+    assert!(matches!(reg.try_get_multiple_mut::<(C, C, C, B)>(), Err(StateError::MultipleBorrowConflict(_))), "a tuple in which a type repeats is refused");
+    assert!(reg.try_get_value::<A>().ok() == Some(init[0]) && reg.try_get_value::<C>().ok() == Some(init[2]), "nothing changed");
+    vcover!(true, "reached");
+    std::mem::forget(reg);
+}
+// @h tier=thorough bound="tuple type (C, C, C, C) over a registry holding A,B,C,D; symbolic values" unwind=7 memsafe=1 cost=2
+#[cfg_attr(kani, kani::proof)]
+#[cfg_attr(kani, kani::unwind(7))]
+pub fn h_c02_multi_cccc() {
+    let init = [sym::u8(), sym::u8(), sym::u8(), sym::u8()];
+    let mut reg = reg_abcd(init);
+    assert!(matches!(reg.try_get_multiple_mut::<(C, C, C, C)>(), Err(StateError::MultipleBorrowConflict(_))), "a tuple in which a type repeats is refused");
+    assert!(reg.try_get_value::<A>().ok() == Some(init[0]) && reg.try_get_value::<C>().ok() == Some(init[2]), "nothing changed");
+    vcover!(true, "reached");
+    std::mem::forget(reg);
+}
